@@ -12,1096 +12,2833 @@ Definition show_fres (r : fres) : string :=
   end.
 Definition check (rs : list rune) : string := digest (show_fres (format_res rs)).
 Definition full (rs : list rune) : string := show_fres (format_res rs).
-Eval vm_compute in ("<<<M87>>>" ++ check (runes_of_ascii "packet Logon{
-    repeat string
-a1 `crlf
-line` ,@lengthOf(
-Pad
-    ) match  Pad as
-u8x
-    { 4294967296
-//
-// " ++ [128512]%N ++ runes_of_ascii " emoji
-: // `tick` ""quote"" 'q'
-i8i8 , } ,
-asx a1 ,
-// a // b
-// @lengthOf(
-@lengthOf(body ) //x
-msg_type int
-,tag`line1
-line2` , repeat
-// packet A { u8 x, }
-// packet A { u8 x, }
-Z9_{ u16
-    packetx	@calculatedFrom(
-    ""it's"" ) , } , @lengthOf(
-// " ++ [128512]%N ++ runes_of_ascii " emoji
-//	t
-Logon ) // " ++ [128512]%N ++ runes_of_ascii " emoji
-@rightPad (
-)	@calculatedFrom(""" ++ [233]%N ++ runes_of_ascii "t" ++ [233]%N ++ runes_of_ascii """ ) repeat roots	u128 // `tick` ""quote"" 'q'
-,@calculatedFrom( ""{,}"") chars{ match // " ++ [128512]%N ++ runes_of_ascii " emoji
-roots as Foo {
-    10 :trueish
-// trailing space 
-// @lengthOf(
-, },} , i8i8 ,@calculatedFrom( ""x y"" ) @calculatedFrom( ""a\""b"" ) repeat Z9_
-{  f32a msg_type ,
-repeat o{
-// " ++ [128512]%N ++ runes_of_ascii " emoji
-// @lengthOf(
-zchar[ 0	]
-charz @calculatedFrom(""CRC32"" ) ,
-}
-,}
-    ,
-} root
-    packet	BodyLength
-{ calculatedFrom
-{
-char[]x@calculatedFrom(
-""\n""
-)
-    , // @lengthOf(
-_x @calculatedFrom( ""`tick`""
-    ),	repeat u128,float Packet
-`" ++ [28040; 24687; 31867; 22411]%N ++ runes_of_ascii "`
-    ,}
-    , repeat Foo	{ uint64 a1
-    // `tick` ""quote"" 'q'
-    , } , /// triple
-repeat char[ 42 ] matchKey `it's` ,	lengthOf{ // " ++ [27880; 37322]%N ++ runes_of_ascii "
-u128 trueish  `// not a comment`, match
-chars as MetaDataX {
-00
-    : x_y_z 1
-: trueish, [ 0123456789 ]
-    :	calculatedFrom , [
-    ""CRC32"" ,	""\" ++ [233]%N ++ runes_of_ascii """
-, ""// no comment""
-    , ""it's"" ,	""packet""
-    , 007 ] : Pad
-,
-} ,  } /// triple
-, repeat char[] Logon // `tick` ""quote"" 'q'
-, @leftPad
-    ( '0' //x
-) f32
-    Pad
-    @calculatedFrom(""CRC32"" ) , @lengthOf(
-BodyLength )  options1 @calculatedFrom( ""`tick`"") , A {
-// " ++ [27880; 37322]%N ++ runes_of_ascii "
-//	t
-uint8 charz`u8 x,`
-, falsey x
-`line1
-line2`  , repeat
-    int8 Packet
-    ,zchar[ 1 ] float
-    , }
-, char[ 65535 ] matchKey
-@calculatedFrom( //
-""x y""
-    ) // trailing space 
-, @lengthOf( o//x
-)match	chars
-    as As {	1
-    : f32a
-,
-} , }
-packet
-//	t
-// packet A { u8 x, }
-int
-{ @calculatedFrom( // trailing space 
-""// no comment"" ) @rightPad ( ) @calculatedFrom( """ ++ [233]%N ++ runes_of_ascii "t" ++ [233]%N ++ runes_of_ascii """ ) roots _x
-/// triple
-// trailing space 
-`say ""hi""`	, // `tick` ""quote"" 'q'
-} options { o= ""{,}"" Pad =
-    255 ;  } // " ++ [27880; 37322]%N)).
-Eval vm_compute in ("<<<M360>>>" ++ check (runes_of_ascii "root packet falsey { @lengthOf(Pad	)repeatCount
-    @calculatedFrom( ""1"")
-    ,@calculatedFrom( """"
-)
-@lengthOf(
-stringy ) A
-leftPad , @calculatedFrom(""{,}""
-    ) // " ++ [128512]%N ++ runes_of_ascii " emoji
-f32 calculatedFrom `{ , }` , char[007
-    ] a1,
-repeat char[ 007 ] repeatCount`it's`
-, char[] pack `line1
-line2`, } packet // " ++ [128512]%N ++ runes_of_ascii " emoji
-trueish{ repeat zchar[10 ]options1 `a\`
-,  roots@calculatedFrom(
-""" ++ [128512]%N ++ runes_of_ascii """	) `{ , }`
-,  @calculatedFrom(	""a\""b""	)
-_x _x `
-` , //x
-i8 pack
-    , @lengthOf(  string_ )
-match charz
-as
-repeatCount
-{[
-0123456789 ]
-    : x// a // b
-,255:
-    Foo, [ 0123456789 , ""1"" ] : f32a """" :
-    // " ++ [128512]%N ++ runes_of_ascii " emoji
-    len
-,	[0 ,
-0123456789 ,""a\\"" ,65535]
-    : int ,[""packet"" , ""1"" ,65535 ,  ""a\""b""
-    ,	4294967296
-, ""x y""
-    , ""// no comment"" ]
-: calculatedFrom , // trailing space 
-},
-@calculatedFrom( // " ++ [27880; 37322]%N ++ runes_of_ascii "
-""" ++ [28040; 24687]%N ++ runes_of_ascii """
-)Pad int  `tab	here`,
-} packet // c
-As
-{
-    options1
-,  @lengthOf( int // a // b
-)int8
-options1 @lengthOf( u8x)
-`crlf
-line`, } packet falsey { @rightPad ( ) char[ 3] o
-    , }root
-packet
-    // @lengthOf(
-    _x {@tag( 42
-) trueish
-    @calculatedFrom(
-""" ++ [128512]%N ++ runes_of_ascii """ )
-`
-` , f32a `crlf
-line` , match
-rootA as stringy  { // trailing space 
-[ ""packet""
-    ,
-//
-// " ++ [27880; 37322]%N ++ runes_of_ascii "
-"""" ]:
-    uint8x ,  ""\" ++ [233]%N ++ runes_of_ascii """
-: uint8x , [""\n"" ,1 ]
-    : zchar // packet A { u8 x, }
-, 255:
-// `tick` ""quote"" 'q'
-//
-int ,[ ""packet""]: roots }
-, repeat u16 // c
-x_y_z// a // b
-`// not a comment` , }")).
-Eval vm_compute in ("<<<M1636>>>" ++ check (runes_of_ascii "options{ StringPrefixLenType = u16
-;  ArrayPrefixLenType  =
-    u8
+Eval vm_compute in ("<<<M4023>>>" ++ check (runes_of_ascii "options {
+msg_type = ""packet"" //x
+    ;
+	leftPad // trailing space 
 
+  = 
+' '
 ;
+x_y_z=
 
-FixedStringPadFromLeft
-=
-	true
-    ; FixedStringPadChar
-=
-	' '  ;}packet
+    ' '
+	;
+}
+root  packet
+    A //
+	{
+    //x
+  zchar[ 
+42 
+]options1 `u8 x,` ,
+    float64
+    uint8x `a\`
+,
+    packetx@lengthOf(  BodyLength
 
-    Quote {
-int64
+) `tab	here` ,
+chars
+    u8x`100% of %d` ,@leftPad (
+    )
+    repeat i64_
+    charz
+	`u8 x,`
+,
+repeat
+	crc{ msg_type  asx ,},
+repeat f32a
+,char[ 
+00 
+] o `" ++ [233]%N ++ runes_of_ascii "`
 
-OrderId, 
-char[]
-Ref  , @leftPad  ('0' ) char[5  ] price,
+    ,  @lengthOf(
+float
 
-    }
+)leftPad @calculatedFrom( 
 
-    packet  Heartbeat {
+    //	t
+      // packet A { u8 x, }
+""a	b""
 
-    zchar[  3 ]venue
-,	string
-Flags ,  }
+)	, }
+
     packet
+	Packet
 
-    Trade
+{
+	i16 asx `a\`//	t
+    	, @calculatedFrom( 
+""" ++ [128512]%N ++ runes_of_ascii """  ) @lengthOf(
+
+/// triple
+    /// triple
+		f32a
+
+) @lengthOf(
+    Pad
+)  repeat
+    // a // b
+pack
+i64_  `// not a comment`
+	,
+char[]
+len  `u8 x,` ,
+	repeat  char[] 
+asx, match repeatCount 
+as uint8x{00 :
+	trueish
+00 : 
+Z9_ 
+, 7 : u,
+[
+00 
+,7 
+,
+	""abc""
+,
+""1"" ] :
+charz [ 1  , ""abc""
+    ,	""a\\""
+,	65535
+,
+007
+]: Packet 
+, } ,
+	@calculatedFrom(	""{,}""
+)	repeatCount
+    body
+`it's` , @leftPad(
+    // c
+	  '\x00')repeat	len 	 // a // b
+
+	`line1
+line2`  , @tag(
+007
+) match
+	metadata
+
+as
+    string_ {	[ 
+""x y""  ]:
+falsey
+	// packet A { u8 x, }
+	}// @lengthOf(
+  ,@leftPad ( 
+'\x00'
+
+)
+packetx
+	,	// c
+
+	} 
+root
+packet	T {  @rightPad(
+    ' '	)
+    repeat 
+      //x
+    lengthOf
+
+f32a
+`line1
+line2` ,
+
+@tag(
+    00
+)	char[ 1
+] body ,
+repeat calculatedFrom , // a // b
+    repeat
+
+    Z9_
+	    //	t
+	//	t
+	,	repeat u8x
 
     {
+    metadata {match repeatCount
+    as  falsey
+    {007	// trailing space 
 
-    repeat	InTag787
-	{ i32
+  :len ,
+""packet""  :  T	//x
+  , 65535
+:	T
 
-venue,
-char[	5	]sym, repeat InPx98 {
-char[ 11	]
-Qty 
-, Heartbeat,  char[]  price  ,
-	u32 x
+, }
+	, }
 
 ,
-	float64
+	u16 string_	`u8 x,` ,	match
+float
+as  MetaDataX{ ""\" ++ [233]%N ++ runes_of_ascii """
 
-    count
+: int 
+, 
+[ 10	,1,	0,3 
+, ""// no comment"" 
+,""" ++ [28040; 24687]%N ++ runes_of_ascii """,
+
+00 , 4294967296  // " ++ [128512]%N ++ runes_of_ascii " emoji
+]
+        // packet A { u8 x, }
+  :
+    Header
+,	[ ""{,}""
+
+,
+	42
+	    // `tick` ""quote"" 'q'
+  ]
+    : matchKey
 	,
+    [
+
+255
+, 10	/// triple
+  	, 1, """ ++ [128512]%N ++ runes_of_ascii """ ]:chars
+
+    7// " ++ [27880; 37322]%N ++ runes_of_ascii "
+	:roots
+	,} // " ++ [27880; 37322]%N ++ runes_of_ascii "
+      ,
+	string
+
+    leftPad,
+    }
+, 
+@lengthOf( 
+i8i8  )	//	t
+  @leftPad
+
+    ('\x00'
+
+)
 
 repeat 
-Quote
-    ,
-    }
+Packet  `line1
+line2` 
+, uint8  len 
 ,
-	zchar[
-	7	]
-    Note ,  repeat
-char[ 1
-]
+@rightPad(	'\x00' 
 
-    Tail  ,
+// a // b
+)char[ 4294967296
+    ]
 
-    } , 
-repeat
-char[	2 
-] 
-seqNo,	InTail55
-{
-repeat
-Quote
+Logon
+	`doc` 
+,  }	MetaData
+msg_type
 
-    , string  msgKind ,InPx18
+{ i16 repeatCount
+`doc`	,u8x
+msg_type , } ")).
+Eval vm_compute in ("<<<M557>>>" ++ check (runes_of_ascii "  packet options1 {
+@calculatedFrom( ""\n""
+) // `tick` ""quote"" 'q'
+string int @lengthOf(
+    packetx
+//
+// " ++ [128512]%N ++ runes_of_ascii " emoji
+) ,@tag( 0
+) @tag( 0123456789)@tag(10 ) match//
+len// @lengthOf(
+as
+// a // b
+// packet A { u8 x, }
+rootA { [
+    ""\" ++ [233]%N ++ runes_of_ascii """ , 1	, 3
+]:charz ,[ ""a\""b""
+]// trailing space 
+:  x, }
+,@lengthOf( i64_ ) match BodyLength // trailing space 
+as
+    //
+    roots {""\n"":
+u,
+    }
+, repeat float{options1 {
+    repeat f32 len , } ,} ,
+zchar[ 0123456789
+    ] // a // b
+chars
+, @leftPad (
+'\x00'
+) @calculatedFrom(
+    ""// no comment"" )@calculatedFrom( """") int64 rootA // packet A { u8 x, }
+, } packet len
+    { @tag( 10 // 50% %s
+) repeat float32 len,match matchKey as x_y_z
+{ ""CRC32"" : matchKey ,
+    [00
+,3
+    ] : f32a ,""x y""
+    //	t
+    :
+lengthOf 10 : MetaDataX 7 :// packet A { u8 x, }
+MetaDataX,""" ++ [233]%N ++ runes_of_ascii "t" ++ [233]%N ++ runes_of_ascii """
+    :	x_y_z } ,
+@rightPad (
+    '0'
+)
+    // packet A { u8 x, }
+    @leftPad ()
+    @tag(
+10 ) u8x @lengthOf(lengthOf), }
+packet
+As {
+char[]
+calculatedFrom , }
+    options {
+    calculatedFrom= ""a\\"" ; len =
+007 ; i64_
+= 10 ;
+}
+packet Header// trailing space 
+{ match o as matchKey{ [ 3 , """"] : T
+,""{,}"" :
+    calculatedFrom } ,repeat char[// a // b
+255 ]
+    u // packet A { u8 x, }
+,  char[]
+    Packet , // a // b
+repeat int64 packetx
+,
+@leftPad
+(
+'\x00' )
+    @calculatedFrom(
+    """" )
+//x
+// @lengthOf(
+zchar {f32 zchar `
+`
+, match u128	as
+    options1 { [
+// c
+// 50% %s
+""abc""
+    // a // b
+    , 10
+,65535
+,  0, ""\n"" , """ ++ [128512]%N ++ runes_of_ascii """ , 0123456789 ] : chars ,// 50% %s
+00 :	As , ""a	b"" :// " ++ [128512]%N ++ runes_of_ascii " emoji
+packetx , //
+10  : a1 , }
+    ,	} , float64
+    calculatedFrom
+    @lengthOf(
+    packetx ) , char[
+    00 ]
+string_ `
+`
+    , uint8
+charz	@lengthOf(
+body ) // packet A { u8 x, }
+`two words`
+    // @lengthOf(
+    ,@calculatedFrom(
+    ""`tick`"" ) zchar[
+    00]crc @lengthOf( a1	)
+//x
+// c
+`line1
+line2` ,}
+")).
+Eval vm_compute in ("<<<M3619>>>" ++ check (runes_of_ascii "
+options
+    { x =
+
+    '0'
+	}packet calculatedFrom
 
     {
 
-char[]count ,	repeat 
-Quote
-    , uint16 Qty  ,
-    }	,
-char[
+repeat
+    len {
 
-4 ]
+f64  
+  //	t
+zchar
 
-    seqNo  ,
+`
+` ,
 
-    repeat
-Heartbeat 
-, repeat string
-	sym, }
-	,
+}
 
-repeat	Quote
-    , 
-Heartbeat ,
-
-    @leftPad	(
-' '
-    )
-char[ 
-10]	OrderId  , } root
-
-packet
-	Fill{Heartbeat, uint32  count
-
-,u8 OrderId
     ,
-match OrderId
-	as 
-Body
 
-    {  96
+@rightPad
+
+(
+
+' '
+	    // " ++ [128512]%N ++ runes_of_ascii " emoji
+		// 50% %s
+)
+	@calculatedFrom(""\" ++ [233]%N ++ runes_of_ascii """  )
+
+@lengthOf(
+Header
+) char[]
+    rootA
+
+`say ""hi""`	,  repeat	u8  
+      // c
+  chars
+    `say ""hi""`  ,	@tag( 
+42
+	)	@leftPad
+
+    ( '\x00'  )  @calculatedFrom(
+	""\" ++ [233]%N ++ runes_of_ascii """
+    )
+
+string len @calculatedFrom(""x y"" )	`it's`
+
+,
+
+    u @calculatedFrom(
+
+""a\\"" )
+    // " ++ [27880; 37322]%N ++ runes_of_ascii "
+	// @lengthOf(
+    	`two words`// @lengthOf(
+	  ,
+    @leftPad(
+)
+match
+
+x  as Logon {00	:
+//
+
+  metadata
+,
+	[ 
+	// a // b
+""a\""b"" 
+, 
+0
+    , 
+    // `tick` ""quote"" 'q'
+
+  // trailing space 
+
+	007,	007
+,
+007	//	t
+] //
+    :	body
+,
+007
+	:
+
+    As
+
+    } ,  // @lengthOf(
+    options1
+@calculatedFrom(
+	""" ++ [233]%N ++ runes_of_ascii "t" ++ [233]%N ++ runes_of_ascii """)
+	`" ++ [233]%N ++ runes_of_ascii "`
+	,	/// triple
+	repeat char[] 	 //x
+x`100% of %d` ,
+    @calculatedFrom( 	 // " ++ [27880; 37322]%N ++ runes_of_ascii "
+    ""`tick`"")
+o 
+@calculatedFrom(	""" ++ [128512]%N ++ runes_of_ascii """	)	`
+`	,
+	}options
+
+{ 	 // @lengthOf(
+    	stringy =
+    float32
+
+metadata =
+
+    uint16 repeatCount=  """ ++ [28040; 24687]%N ++ runes_of_ascii """
+
+; leftPad
+=false
+    }  packet
+
+Z9_	// packet A { u8 x, }
+	{ 
+@tag(
+
+    00
+    //
+//x
+)
+
+    repeat  int {
+    u16 // packet A { u8 x, }
+      chars ,
+}
+	, x
+	{ 
+//	t
+repeat
+
+    roots
+,	// `tick` ""quote"" 'q'
+	},
+
+@tag(  0123456789
+
+)	repeat
+    zchar {
+
+    char[  007
+    ]  i8i8
+
+@lengthOf( crc  //	t
+) // a // b
+	  `crlf
+line`  ,
+calculatedFrom
+metadata  , 
+//	t
+  	//	t
+	char[0123456789// " ++ [27880; 37322]%N ++ runes_of_ascii "
+  	] x 
+    // " ++ [27880; 37322]%N ++ runes_of_ascii "
+  ,  }  , } ")).
+Eval vm_compute in ("<<<M4447>>>" ++ check (runes_of_ascii "
+
+  root
+	packet
+body
+{ @calculatedFrom(
+    ""a	b""
+
+    ) 
+repeat int32 
+zchar
+	, lengthOf 
+body 
+,@rightPad
+    (
+    ' ' )uint8x { u64	body,	} 
+, 
+@tag(
+1 ) @leftPad
+	(
+	'0'
+
+    ) @calculatedFrom(
+
+""" ++ [233]%N ++ runes_of_ascii "t" ++ [233]%N ++ runes_of_ascii """
+    )
+u64 
+x
+@calculatedFrom(""" ++ [128512]%N ++ runes_of_ascii """  
+      // packet A { u8 x, }
+//x
+    )
+, 
+x, @lengthOf(  u128
+	)
+    _x T  `` 	 //	t
+	,
+    @rightPad 
+('0')
+i64 	 // trailing space 
+a1 ,
+    string 
+trueish
+
+@calculatedFrom(
+	""// no comment"" 
+)
+`
+`  , }
+packet  tag {
+
+    } MetaData
+
+body
+    {T u ,string
+f32a
+,
+    f64 Packet
+
+,
+	lengthOf
+Header
+`tab	here`
+    , } 
+// c
+  //
+	packet T 	 // @lengthOf(
+
+{@leftPad
+	(	) 
+chars , @calculatedFrom(""1""
+    ) @lengthOf(tag
+
+) @lengthOf( Foo  ) match
+charz	as 
+chars
+
+    {
+42
+    :
+
+    // packet A { u8 x, }
+      uint8x
+    , """ ++ [28040; 24687]%N ++ runes_of_ascii """	:	o , 0123456789 
+: 
+lengthOf , [""a\\""
+,
+	""CRC32""
+, ""a	b""
+
+    ,
+""CRC32"" ,
+	0
+	,""CRC32"", 
+""a\\""
+
+,
+	""""]
+:  T  ""it's"" :
+
+tag}	//x
+  ,i8 roots
+
+    ,	@lengthOf(
+
+    float
+)
+
+    @tag(10
+
+) body{
+	chars // trailing space 
+	{
+    repeat
+	int8
+
+body, },
+repeat
+
+    Header{ char[]
+	leftPad,
+    }	,	/// triple
+	match
+
+Logon as 
+  // " ++ [128512]%N ++ runes_of_ascii " emoji
+
+  zchar
+	{
+	4294967296
+
+:
+    len
+
+    ,""a\""b"" // trailing space 
+
+	:
+
+A	00
+
 :
 
-    Quote
-, 195:
+    x_y_z  ,  }
 
-Trade ,187:  Heartbeat
-	,
+,//	t
+  repeat
+	i16
 
-    } ,
-    u32 venue @calculatedFrom(
-""CRC32""
-)
-,}
+    options1 
+,}  ,  } options  { }")).
+Eval vm_compute in ("<<<M823>>>" ++ check (runes_of_ascii "options {
+metadata =
+00 ; x_y_z =
+    0123456789 ;// 50% %s
+uint8x // a // b
+= zchar[// 50% %s
+4294967296 ] ;} //
+root packet Foo
+// @lengthOf(
+// packet A { u8 x, }
+{
+    @lengthOf(matchKey)repeat i64_ `doc` , @rightPad (
+'\x00' )
+@tag(
+1)body BodyLength , @tag( // trailing space 
+3 ) match  metadata as Foo {
+    00  :leftPad
+,1
+    // " ++ [27880; 37322]%N ++ runes_of_ascii "
+    :i64_ , ""a	b"" :x
+, // @lengthOf(
+} ,pack {
+repeat zchar[ 255 ] // trailing space 
+u
+    , }
+    , // `tick` ""quote"" 'q'
+@lengthOf(
+    rootA
+) leftPad {
+    match falsey as i64_
+{ ""\" ++ [233]%N ++ runes_of_ascii """ : As
+    ,  [ 10]:Z9_ ,0123456789 :  calculatedFrom , 0123456789 : float , [ ""abc"", ""it's"" // " ++ [27880; 37322]%N ++ runes_of_ascii "
+] : zchar , [
+4294967296  , ""\" ++ [233]%N ++ runes_of_ascii """,
+""a	b"" , 1 , 3
+    ]
+    :// trailing space 
+chars}
+, i32 asx
+    ,	i16 i8i8	,repeat  zchar[	0
+//x
+// packet A { u8 x, }
+] Foo,} ,@calculatedFrom( ""x y"" )// @lengthOf(
+u32 i8i8@lengthOf(string_ ) `" ++ [233]%N ++ runes_of_ascii "`, @rightPad (
+    ' ')
+@leftPad
+( // @lengthOf(
+)	char[
+// @lengthOf(
+// 50% %s
+7 ]
+msg_type `it's`
+,
+@lengthOf(  tag
+) match Packet
+as u {3 :	msg_type 0123456789 // trailing space 
+:
+    u128 , // " ++ [27880; 37322]%N ++ runes_of_ascii "
+[ ""packet"" ] :
+    falsey ,
+}// " ++ [128512]%N ++ runes_of_ascii " emoji
+, }packet	Header { }
+    MetaData
+    msg_type{ zchar[ 42
+    ] float , }
 ")).
-Eval vm_compute in ("<<<M1553>>>" ++ check (runes_of_ascii "options {
-    StringPrefixLenType = u64;
-    ArrayPrefixLenType = u16;
-    FixedStringPadChar = ' ';
+Eval vm_compute in ("<<<M3953>>>" ++ check (runes_of_ascii "options {
+    x = '0'
 }
-packet Logon {
-    i32 msgKind,
-    repeat InOrderid65 {
-        u8 pad0,
+
+packet calculatedFrom {
+    repeat len {
+        f64 zchar `
+        `,
     },
-    i8 tag7,
-    @leftPad(' ') char[12] x,
+    @rightPad(' ')
+    @calculatedFrom(""\" ++ [233]%N ++ runes_of_ascii """)
+    @lengthOf(Header)
+    char[] rootA `say ""hi""`,
+    repeat u8 chars `say ""hi""`,
+    @tag(42)
+    @leftPad('\x00')
+    @calculatedFrom(""\" ++ [233]%N ++ runes_of_ascii """)
+    string len @calculatedFrom(""x y"") `it's`,
+    u @calculatedFrom(""a\\"") `two words`,
+    @leftPad()
+    match x as Logon {
+        00 : metadata,
+        [""a\""b"", 0, 007, 007, 007] : body,
+        007 : As,
+    },// @lengthOf(
+    options1 @calculatedFrom(""" ++ [233]%N ++ runes_of_ascii "t" ++ [233]%N ++ runes_of_ascii """) `" ++ [233]%N ++ runes_of_ascii "`,/// triple
+    repeat char[] x `100% of %d`,
+    @calculatedFrom(""`tick`"")
+    o @calculatedFrom(""" ++ [128512]%N ++ runes_of_ascii """) `
+    `,
 }
-packet Leg {
-    char[] f1,
-    repeat char[5] Px,
-    InQty34 {
-        repeat char[6] Qty,
-        char[7] seqNo,
+
+options {
+    // @lengthOf(
+    stringy = float32
+    metadata = uint16
+    repeatCount = """ ++ [28040; 24687]%N ++ runes_of_ascii """;
+    leftPad = false
+}
+
+packet Z9_ {
+    @tag(00)
+    repeat int {
+        u16 chars,
+    },
+    x {
+        //	t
+        repeat roots,// `tick` ""quote"" 'q'
+    },
+    @tag(0123456789)
+    repeat zchar {
+        char[007] i8i8 @lengthOf(crc) `crlf
+        line`,
+        calculatedFrom metadata,
+        //	t
+        //	t
+        char[0123456789] x,
+    },
+}")).
+Eval vm_compute in ("<<<M426>>>" ++ check (runes_of_ascii "MetaData tag
+    { u16	leftPad `doc`	,  chars _x	`say ""hi""` ,	}// @lengthOf(
+root
+    packet // c
+crc { packetx o `// not a comment` , char[]	matchKey , @leftPad () repeat repeatCount`a\`
+,@leftPad
+( '0'
+    // `tick` ""quote"" 'q'
+    ) Header // " ++ [27880; 37322]%N ++ runes_of_ascii "
+{ match rootA as packetx
+{"""": options1,
+[  ""CRC32"",""packet"" // " ++ [128512]%N ++ runes_of_ascii " emoji
+,""1"" ] :  x [ ""`tick`"" ] : len ,
+}	, } , }  packet roots
+    // `tick` ""quote"" 'q'
+    { //x
+@tag( 1 )charz ,
+// @lengthOf(
+//x
+int32
+    // 50% %s
+    msg_type
+,@lengthOf(	matchKey ) @calculatedFrom( ""a\\"" ) repeat trueish
+{ u x
+    //x
+    ,
+    } ,i32
+// trailing space 
+//	t
+msg_type ,
+    match trueish //	t
+as
+//x
+// trailing space 
+rootA {  """" : f32a, }
+    , @lengthOf(
+// @lengthOf(
+// c
+repeatCount
+) i64
+packetx
+    // a // b
+    @lengthOf(i64_ )
+// trailing space 
+// c
+,
+repeat
+i32 o `// not a comment`,
+@tag( 42 ) @calculatedFrom(""1"" ) @lengthOf( crc
+    )//
+A
+o
+`two words`
+, repeat i64_, chars `" ++ [233]%N ++ runes_of_ascii "`  , }
+    options {	A
+= ""CRC32""
+}  MetaData u8x{ u8
+    string_ `line1
+line2`,
+    BodyLength
+i8i8 `" ++ [28040; 24687; 31867; 22411]%N ++ runes_of_ascii "`,  }
+")).
+Eval vm_compute in ("<<<M151>>>" ++ check (runes_of_ascii "MetaData float{
+// `tick` ""quote"" 'q'
+// 50% %s
+i64
+    stringy,	} packet metadata
+{ @calculatedFrom( ""a	b"" ) @rightPad
+    ( )
+char[]
+    // 50% %s
+    As , i64 asx ,@calculatedFrom(
+""// no comment"" ) x { repeat
+MetaDataX {
+BodyLength ``, }
+    , i32 u128, _x // 50% %s
+u128, }
+// 50% %s
+// packet A { u8 x, }
+, match u as o
+{ 7 : As ""x y""
+:
+f32a ,
+    } ,
+    lengthOf@lengthOf( i8i8 )  , @lengthOf(//x
+roots )
+@calculatedFrom("""" )
+@rightPad( '0' )repeat char[
+7 ] falsey,@leftPad
+( )
+i32 _x `" ++ [28040; 24687; 31867; 22411]%N ++ runes_of_ascii "` , } root packet tag { @tag( 42  )
+    repeat
+zchar[ 007 ] f32a
+    ,
+@rightPad // `tick` ""quote"" 'q'
+(
+    ) zchar[ 65535
+] Pad ,int64 body , leftPad
+`it's` ,string lengthOf , i32 packetx // a // b
+@lengthOf( asx )`two words` ,
+    @leftPad ( '0'
+)	repeat	msg_type
+    rootA,
+options1 u8x // a // b
+,  @tag(
+    //x
+    42) zchar[ 65535
+// c
+//x
+] As
+@lengthOf( // packet A { u8 x, }
+a1
+    ) ``
+,	} root packet charz{ @tag( 4294967296 )
+    string
+options1`100% of %d`,} packet Header{}
+")).
+Eval vm_compute in ("<<<M1403>>>" ++ check (runes_of_ascii "root packet
+Foo { metadata Foo ,
+// " ++ [128512]%N ++ runes_of_ascii " emoji
+// " ++ [27880; 37322]%N ++ runes_of_ascii "
+zchar[// @lengthOf(
+255 ] asx@calculatedFrom( ""\" ++ [233]%N ++ runes_of_ascii """
+) ,repeat i64 i64_ `line1
+line2` , } options { msg_type
+= 65535	chars
+    = '0' ; } root
+    packet// @lengthOf(
+roots
+{ string
+msg_type
+`say ""hi""`
+    ,// " ++ [27880; 37322]%N ++ runes_of_ascii "
+repeat
+// 50% %s
+// 50% %s
+repeatCount
+x_y_z , f64 uint8x // trailing space 
+, @lengthOf(
+lengthOf ) roots @calculatedFrom( """ ++ [128512]%N ++ runes_of_ascii """)
+`// not a comment`//	t
+, repeatCount uint8x
+, repeat int64
+    metadata `it's` , @rightPad ('\x00'
+) @lengthOf(charz ) // 50% %s
+int8 /// triple
+BodyLength ,
+@leftPad  ( '0' ) As
+{rootA { int64 matchKey, } ,
+    repeat zchar[
+    1/// triple
+]
+body `u8 x,`
+, f32
+Z9_`a\`,roots , }, match stringy
+    as zchar  {
+7 :
+uint8x	[ ""// no comment"" ,
+    /// triple
+    """",""`tick`"" ,
+0123456789] : body ,// `tick` ""quote"" 'q'
+""packet"": i8i8 , [ ""abc"" ,0
+    ,""CRC32"" ] :
+repeatCount
+    ,
+    3 //	t
+:falsey ,
+[ /// triple
+255 //x
+, ""\" ++ [233]%N ++ runes_of_ascii """ ]  : i64_ }, }
+")).
+Eval vm_compute in ("<<<M4228>>>" ++ check (runes_of_ascii "MetaData
+
+asx { // " ++ [27880; 37322]%N ++ runes_of_ascii "
+	charz 
+_x
+,int8	x_y_z `two words` 
+,
+
+i32
+
+    charz
+,
+repeatCount i64_,u8x calculatedFrom
+,i8 
+      // `tick` ""quote"" 'q'
+  // c
+    roots	, } MetaData	x {} MetaData
+    len { matchKey packetx , uint8
+
+    uint8x,}
+
+root
+
+packet
+	body{
+    u128
+@calculatedFrom(	""""  /// triple
+	) ,
+repeat  trueish	{
+char[] // " ++ [128512]%N ++ runes_of_ascii " emoji
+    	asx
+@lengthOf(
+
+body )	`u8 x,` ,
+match
+    // packet A { u8 x, }
+		body
+    // @lengthOf(
+  // 50% %s
+  as  //
+	i8i8 {
+
+    ""a\""b""	: 
+packetx
+, 
+""a	b""  :i64_  , 
+[ 
+"""" 
+,
+
+    42  ]
+:MetaDataX
+    ,
+    [
+
+""" ++ [28040; 24687]%N ++ runes_of_ascii """  ]:	pack
+
+    3
+:  x[
+0
+
+    ,
+    007  ]:	Z9_
+
+    , }
+,  char[ 10 
+]// `tick` ""quote"" 'q'
+  int
+
+    `// not a comment`
+    ,
+	u 
+repeatCount
+	`{ , }`
+,
+    } ,
+@lengthOf( 
+trueish
+)
+char asx
+`doc`// @lengthOf(
+  	,	@tag(0
+	)
+i64_
+,  }
+MetaData lengthOf {char[] float	`crlf
+line`
+,// " ++ [128512]%N ++ runes_of_ascii " emoji
+    }
+")).
+Eval vm_compute in ("<<<M558>>>" ++ check (runes_of_ascii "  packet crc{ repeat  i32
+    metadata	,}root
+packet // @lengthOf(
+len { uint32 lengthOf `" ++ [28040; 24687; 31867; 22411]%N ++ runes_of_ascii "` // @lengthOf(
+,
+    // `tick` ""quote"" 'q'
+    Header  crc`u8 x,`	, @calculatedFrom( """ ++ [28040; 24687]%N ++ runes_of_ascii """ )
+// packet A { u8 x, }
+// @lengthOf(
+@calculatedFrom(""abc"" ) uint16
+body@calculatedFrom( """ ++ [128512]%N ++ runes_of_ascii """ ),repeat trueish `{ , }` // 50% %s
+,  @lengthOf( i64_  ) @calculatedFrom(
+// a // b
+// " ++ [27880; 37322]%N ++ runes_of_ascii "
+""{,}""
+// c
+// packet A { u8 x, }
+) // 50% %s
+char[
+42]u8x `say ""hi""` ,} packet As
+{ calculatedFrom crc//	t
+, } packet
+calculatedFrom{
+    @tag( 7
+) @calculatedFrom( ""CRC32"" )  @calculatedFrom(""" ++ [128512]%N ++ runes_of_ascii """) repeat asx u `u8 x,` ,
+//x
+// @lengthOf(
+int16 float
+`it's`, Packet {	repeat	uint8 MetaDataX , Z9_ // @lengthOf(
+`" ++ [233]%N ++ runes_of_ascii "` , }
+    ,
+@tag( 4294967296 ) repeat
+    metadata , match rootA
+    as Foo{ ""CRC32""	: crc	,
+}, @lengthOf(Logon //
+) float64 Pad // c
+@calculatedFrom( ""it's""
+)
+, tag
+, }
+")).
+Eval vm_compute in ("<<<M603>>>" ++ check (runes_of_ascii "packet
+x_y_z  { @calculatedFrom(
+// packet A { u8 x, }
+// @lengthOf(
+""" ++ [128512]%N ++ runes_of_ascii """ )
+    //
+    match a1 as MetaDataX {
+""" ++ [128512]%N ++ runes_of_ascii """: u8x , [ """ ++ [28040; 24687]%N ++ runes_of_ascii """ ]:
+    asx  255  : falsey,
+    [ 007 ]: stringy	10
+    : chars , } , string_  { char[ 4294967296 ] //x
+packetx
+    // packet A { u8 x, }
+    , } ,
+    } root packet u128
+    { calculatedFrom /// triple
+MetaDataX
+    `it's`//
+, repeat leftPad
+// c
+// a // b
+x_y_z
+//x
+// " ++ [27880; 37322]%N ++ runes_of_ascii "
+, }packet BodyLength {char
+    // c
+    Pad
+    @lengthOf(
+// c
+// `tick` ""quote"" 'q'
+uint8x  )`line1
+line2` , uint16
+charz ,
+// " ++ [128512]%N ++ runes_of_ascii " emoji
+// c
+@leftPad // @lengthOf(
+( '\x00'  )	repeat A { repeat float32 Z9_
+    , u16 A @calculatedFrom( ""1"" )``  , Pad{ Packet {repeat uint8 trueish, stringy @lengthOf( u ) `doc`
+    , // c
+charz Foo`
+`,
+uint16 falsey `100% of %d` ,} ,}, f32
+roots ,
+},
+    // c
+    }
+")).
+Eval vm_compute in ("<<<M3481>>>" ++ check (runes_of_ascii "options {
+    ArrayPrefixLenType = u64;
+    FixedStringPadFromLeft = false;
+}
+packet Trade {
+}
+packet Reject {
+    InPx94 {
+        repeat Trade,
         string count,
-    },
-    Logon,
-}
-packet Party {
-    @leftPad('0') char[10] OrderId,
-    string Tail,
-}
-packet Fill {
-    zchar[5] venue,
-    zchar[3] clOrdID,
-    InRef95 {
-        InLastpx25 {
+        InFlags14 {
             u8 pad0,
         },
-        float64 OrderId,
-        i32 f1,
-        float32 x,
-        char[] seqNo,
+        repeat InSide239 {
+            char[8] lastPx,
+            repeat i64 clOrdID,
+            i64 Acct,
+        },
     },
-    repeat string seqNo,
+    repeat string clOrdID,
+    zchar[5] sym,
 }
-root packet Heartbeat {
-    repeat Leg,
-    u32 seqNo,
-    u16 tag7,
-    u32 Flags @lengthOf(Body),
-    match tag7 as Body {
-        [195, 75] : Party,
-        171 : Fill,
-        78 : Logon,
-        142 : Leg,
+packet Quote {
+    repeat Reject,
+}
+packet Logon {
+    repeat Reject,
+    char[] Acct,
+    @leftPad('0') char[4] tag7,
+}
+root packet Fill {
+    @rightPad('0') char[1] count,
+    u8 f1,
+    u32 Qty @lengthOf(Body),
+    match f1 as Body {
+        [195, 3] : Reject,
+        110 : Quote,
+        141 : Logon,
+        21 : Trade,
     },
-    u32 Note @calculatedFrom(""CRC32""),
+    u32 Flags @calculatedFrom(""CR\
+C32""),
 }
 ")).
-Eval vm_compute in ("<<<M1823>>>" ++ check (runes_of_ascii "// top
-options {
-    // c1a
-    // c1b
-    StringPrefixLenType = u8;
-    ArrayPrefixLenType = u32;
-    // c9
+Eval vm_compute in ("<<<M4398>>>" ++ check (runes_of_ascii "packet asx {
+    @leftPad('\x00')
+    @calculatedFrom(""{,}"")
+    //
+    pack x_y_z,
+    Pad f32a,
+    repeat zchar[42] chars `{ , }`,
+    string packetx `
+    `,
+    @tag(10)
+    metadata @calculatedFrom(""x y""),
+    uint8x,
+    repeat int16 pack `a\`,
+    float64 rootA,
+    /// triple
 }
 
-packet Quote {
-    // c13
-    u32 Ref,// c16a
-    // c16b
-    InNote74 {
-        // c18
-        u8 pad0,// c21
+packet asx {
+    string_,
+}
+
+root packet Header {
+    float64 x_y_z @calculatedFrom(""x y""),
+    //
+    //x
+    @calculatedFrom(""a\""b"")
+    @calculatedFrom(""a\""b"")
+    int {
+        zchar[255] msg_type,
+        i64_ {
+            stringy @lengthOf(x_y_z),
+            u options1 `" ++ [233]%N ++ runes_of_ascii "`,
+            repeat f32 msg_type,
+            float32 Foo `two words`,
+        },
+    },
+    uint8 asx `line1
+    line2`,
+}
+
+MetaData lengthOf {
+    char[] o `line1
+    line2`,
+}")).
+Eval vm_compute in ("<<<M3736>>>" ++ check (runes_of_ascii "packet o {
+    repeat calculatedFrom {
+        As,
+        repeat u {
+            //	t
+            i32 repeatCount,
+        },
+        match BodyLength as u8x {
+            007 : trueish,
+        },
+        asx float `two words`,
+    },
+    match pack as calculatedFrom {
+        ""it's"" : Foo,
+        // 50% %s
+        // @lengthOf(
+    },
+    match body as calculatedFrom {
+        [""a\""b""] : o,
+        42 : Packet,
+        //
+        [0123456789, 1, ""1""] : float,
     },
 }
 
-packet Ack {
-    repeat string OrderId,// c31
-}// c32
-
-packet Logout {
-    // c35
-    zchar[7] venue,// c40a
-    // c40b
-    char[12] Px,
-    // c45
-    string count,
-    // c48
-    char[] Tail,// c51
-    char[] Qty,// c54
-    Quote,// c56
-}// c57
-
-root packet Trade {
-    // c61a
-    // c61b
-    zchar[2] price,
-    // c66
-    u32 x,
-    u32 lastPx @lengthOf(Body),// c75a
-    // c75b
-    match x as Body {
-        // c80
-        148 : Ack,
-        // c84
-        171 : Quote,
-        15 : Logout,
-        // c92
-    },// c94
+MetaData i64_ {
+    u128 crc ``,// c
+    string_ u,
+    i8 int `doc`,
+    // " ++ [27880; 37322]%N ++ runes_of_ascii "
+    i16 x `doc`,
+    falsey f32a,
 }
-// c95")).
-Eval vm_compute in ("<<<M274>>>" ++ check (runes_of_ascii "packet  int  { @calculatedFrom( """ ++ [28040; 24687]%N ++ runes_of_ascii """  )
-@tag(
-    // `tick` ""quote"" 'q'
-    007
-    ) options1 @calculatedFrom( ""CRC32"" ) `tab	here`
-, @lengthOf(
-As )
-    x x_y_z , repeat x
-{ i64 Z9_,
-zchar[
-    // c
-    007 ] body
-//	t
-// a // b
-@lengthOf( uint8x
+
+options {
+    roots = zchar[4294967296];
+    x = 65535;
+    crc = zchar[7];
+    metadata = char[];
+    leftPad = i32
+}")).
+Eval vm_compute in ("<<<M661>>>" ++ check (runes_of_ascii "MetaData
+    chars { As Packet ,T	crc ,
+// `tick` ""quote"" 'q'
+// 50% %s
+char[]
+    _x, len packetx `line1
+line2`, } packet T
+    {int64 f32a@lengthOf( x ) `say ""hi""`,
+    // trailing space 
+    zchar[ 65535
+    ]asx
+`say ""hi""` , i16
+    roots`" ++ [28040; 24687; 31867; 22411]%N ++ runes_of_ascii "` ,  @rightPad (// " ++ [27880; 37322]%N ++ runes_of_ascii "
+'\x00' ) string uint8x
+,
+    rootA  @lengthOf( roots
+    // a // b
+    ) `two words` ,repeat
+u32 u128 , @tag( 255 )
+    //x
+    charz pack
+    // a // b
+    , }
+// @lengthOf(
+// " ++ [27880; 37322]%N ++ runes_of_ascii "
+packet Header {
+// " ++ [128512]%N ++ runes_of_ascii " emoji
+//
+@leftPad ( '0'	) repeat
+    f32a
+    metadata `" ++ [233]%N ++ runes_of_ascii "` ,
+    } packet //
+msg_type { char A`two words`, @tag( 255	)
+    @rightPad ()	body @calculatedFrom( ""\" ++ [233]%N ++ runes_of_ascii """) // 50% %s
+, }options { Z9_ = ""packet""
+;
+    }
+")).
+Eval vm_compute in ("<<<M3636>>>" ++ check (runes_of_ascii "
+root
+
+    packet  // 50% %s
+	Foo	{ }
+packet
+BodyLength	{	@tag(	007 )zchar[ 4294967296  ]_x
+
+    ,x_y_z 
+,
+
+@tag(// @lengthOf(
+	3	) @leftPad (
+'0'
+)
+
+@calculatedFrom(	// 50% %s
+  ""packet"" )  i16	_x @lengthOf( 
+BodyLength
+
+) `u8 x,`
+	,	} // @lengthOf(
+	packet  int
+
+    { 
+u64 
+i64_	@calculatedFrom(
+
+    """ ++ [28040; 24687]%N ++ runes_of_ascii """
+	)
+
+,@tag( 	 //	t
+  10 ) repeat chars
+, }
+packet float
+{  @calculatedFrom(
+""it's""
+
     )
+    char[] a1
+	,
+    Pad leftPad
+
+    `// not a comment` , 
+body ``	,
+
+    Z9_ @calculatedFrom(
+	""a\\""
+    // @lengthOf(
+  // " ++ [27880; 37322]%N ++ runes_of_ascii "
+	)`tab	here` ,
+	@tag(
+
+4294967296
+
+)
+
+int16
+	BodyLength
+
+    @calculatedFrom(  ""{,}""
+)`say ""hi""`
+
+    , } ")).
+Eval vm_compute in ("<<<M1073>>>" ++ check (runes_of_ascii "packet packetx { @leftPad (
+    ) u32 x_y_z `u8 x,` // @lengthOf(
+,
+}packet
+zchar { repeat char[
+0123456789
+] u8x	, T // packet A { u8 x, }
+@lengthOf( stringy
+)`
+`
+, repeat u128{ match MetaDataX as
+_x  {	[ 1 ] : Logon,0123456789 : Foo
+//
+// @lengthOf(
+, [
+""`tick`"" , ""CRC32""]
+    : uint8x [ ""{,}"" ,
+    ""a\""b"" , 42 , 42
+    , ""`tick`""
+,	42]
+    : // 50% %s
+leftPad ,
+}, }
+,
+rootA // @lengthOf(
+uint8x`a\`
+, } MetaData lengthOf {
+    uint32 // 50% %s
+msg_type `" ++ [28040; 24687; 31867; 22411]%N ++ runes_of_ascii "` , u16 Pad //	t
+`it's` , zchar[ 007 ]
+    // packet A { u8 x, }
+    charz `crlf
+line`,
+    u128 /// triple
+len , BodyLength asx
+    `tab	here`,
+Packet Header ,}
+
+")).
+Eval vm_compute in ("<<<M3495>>>" ++ check (runes_of_ascii "// top
+packet
+    // c0
+Logon // c1
+{
+    // c2
+u8 // c3a
+  // c3b
+x // c4a
+  // c4b
+, // c5a
+  // c5b
+string // c6a
+  // c6b
+user , // c8
+} // c9a
+  // c9b
+packet Logout { u16 // c13
+reason // c14a
+  // c14b
+, // c15a
+  // c15b
+} packet // c17
+Empty // c18
+{ // c19
+} // c20a
+  // c20b
+root // c21
+packet // c22
+Frame // c23a
+  // c23b
+{
+    // c24
+u16
+    // c25
+MsgType , // c27a
+  // c27b
+@lengthOf( // c28
+Body // c29
+)
+    // c30
+u64 // c31
+BodyLen // c32
+, // c33a
+  // c33b
+u8 // c34
+flags // c35a
+  // c35b
+, // c36a
+  // c36b
+Logon
+    // c37
+Body // c38
+, // c39
+u32
+    // c40
+trailer , }
+    // c43
+")).
+Eval vm_compute in ("<<<M4309>>>" ++ check (runes_of_ascii "  // a // b
+    packet 
+i8i8{
+
+} packet
+calculatedFrom	{
+
+@calculatedFrom(""" ++ [28040; 24687]%N ++ runes_of_ascii """ ) 
+@lengthOf(T 
+	// 50% %s
+  )
+@rightPad  (
+
+    ' '
+
+)repeat
+
+chars  
+  // packet A { u8 x, }
+    {
+
+string_ {repeat
+    metadata
+    BodyLength
+`tab	here` 
+,
+	char[] 
+x
+
+`u8 x,`
+
+    , }
+    ,uint32
+lengthOf 
+, //	t
+
+pack
+options1  `100% of %d`//
+
+  ,}
+
+,int64 
+Pad `100% of %d`,
+
+@lengthOf(
+	tag  ) repeat uint64
+    falsey, 
+        //x
+		// 50% %s
+	@leftPad	( '0'
+)
+repeat
+u8x`
+`	,
+i16 options1	,
+    int@calculatedFrom( """ ++ [28040; 24687]%N ++ runes_of_ascii """
+)
+
+,	// " ++ [128512]%N ++ runes_of_ascii " emoji
+
+  char[1]  T  // `tick` ""quote"" 'q'
+	  `{ , }`	,	}")).
+Eval vm_compute in ("<<<M422>>>" ++ check (runes_of_ascii "packet _x { char[ 4294967296
+] float
+    @calculatedFrom( ""it's"" )
+,// trailing space 
+@calculatedFrom(  ""\" ++ [233]%N ++ runes_of_ascii """//x
+)	match options1 as matchKey
+{ [	""\n""	,
+00,
+255 ,
+007 ,
+    0123456789
+    // " ++ [128512]%N ++ runes_of_ascii " emoji
+    , 4294967296 ]
+: MetaDataX // a // b
+, /// triple
+} // trailing space 
+, repeat
+    matchKey calculatedFrom `" ++ [233]%N ++ runes_of_ascii "` ,
+@calculatedFrom( ""a\""b"" )body `` ,
+}
+MetaData falsey{ A leftPad
+,
+MetaDataX tag , }  packet string_ {@calculatedFrom( ""a\""b""
+    ) @leftPad ('\x00' )  string options1 , @leftPad
+    ( '0'
+) @tag( 10 ) @leftPad( )a1 repeatCount `say ""hi""`
+    , }")).
+Eval vm_compute in ("<<<M3612>>>" ++ check (runes_of_ascii "packet Pad {
+}
+
+packet packetx {
+    //x
+    repeatCount,// packet A { u8 x, }
+    @leftPad('\x00')
+    tag @lengthOf(u128),
+    MetaDataX @calculatedFrom(""\" ++ [233]%N ++ runes_of_ascii """) `tab	here`,// a // b
+    uint16 body @calculatedFrom(""abc"") `say ""hi""`,// trailing space 
+}
+
+packet x {
+    u16 a1 `crlf
+        line`,
+}
+
+root packet Z9_ {
+    @calculatedFrom(""CRC32"")
+    repeat string pack `say ""hi""`,
+    repeat zchar[3] charz,//	t
+    i16 f32a @calculatedFrom(""{,}""),
+}
+
+packet len {
+    @lengthOf(crc)
+    zchar[00] f32a @calculatedFrom(""it's""),// " ++ [128512]%N ++ runes_of_ascii " emoji
+}")).
+Eval vm_compute in ("<<<M953>>>" ++ check (runes_of_ascii "options { packetx =
+    //	t
+    '\x00' ; }	packet A{ }
+    root packet a1 {
+// packet A { u8 x, }
+//x
+} root  packet float
+{
+//	t
+// @lengthOf(
+string
+    len @calculatedFrom( ""{,}"" ) `crlf
+line` ,
+    body
+    @lengthOf( msg_type	) //x
+`a\` ,
+    @leftPad
+()  f64  uint8x , packetx	,
+@calculatedFrom( ""\n"")
+    /// triple
+    repeat char[] leftPad ,
+    f64 trueish `{ , }`
+    ,
+int32 zchar//x
+, repeat
+    zchar[3]
+Packet`say ""hi""` //	t
+,u32 charz @lengthOf(	x
+    ) ,Z9_
+    // `tick` ""quote"" 'q'
+    , }
+//x
+")).
+Eval vm_compute in ("<<<M1049>>>" ++ check (runes_of_ascii "packet
+// a // b
+// a // b
+A {
+@tag(	00 ) f32a @lengthOf( Pad ), // a // b
+@rightPad
+    ( ' '
     // c
-    , f64  metadata @calculatedFrom( ""`tick`""	)
-    `tab	here`, }	, } packet msg_type {
-    repeat
+    )
+uint16 o,	repeat Pad{ trueish@calculatedFrom(	""// no comment"" ) // c
+, asx // a // b
+calculatedFrom
+`` ,//	t
+zchar @lengthOf( int	) ,repeat packetx{ MetaDataX , } , } , repeat Packet matchKey  , //
+} MetaData matchKey { u8 charz`" ++ [28040; 24687; 31867; 22411]%N ++ runes_of_ascii "`
+, i8i8
+    T , zchar[ 0 ] trueish,	char[
+4294967296 ]
+    //x
+    float `a\`
+, options1 Pad`" ++ [28040; 24687; 31867; 22411]%N ++ runes_of_ascii "`
+    /// triple
+    ,
+    char[]
+    stringy , }
+")).
+Eval vm_compute in ("<<<M4055>>>" ++ check (runes_of_ascii "root packet x {
+}
+
+packet Foo {
+    packetx a1,
+    metadata u128 `line1
+        line2`,
+    @tag(0123456789)
+    @calculatedFrom(""// no comment"")
+    Packet `// not a comment`,
+    u32 packetx,
+}
+
+options {
+    i64_ = uint32;
+    u128 = 42
+    Packet = '\x00'
+    i64_ = 007;
+    Pad = char[65535];
+}
+
+root packet msg_type {
+    match float as falsey {
+        // " ++ [27880; 37322]%N ++ runes_of_ascii "
+        // 50% %s
+        0123456789 : x,
+        ""abc"" : x,
+        // `tick` ""quote"" 'q'
+    },
+}")).
+Eval vm_compute in ("<<<M1095>>>" ++ check (runes_of_ascii "packet
+Pad{
+match u as tag{
+    [ 00 /// triple
+, ""CRC32""] :u128  }	,
+}
+    root packet Pad {repeat Pad	,
+char
+a1@calculatedFrom( ""x y""
+//
+//
+) //x
+,repeat // @lengthOf(
+zchar[ 65535 ]
+    // a // b
+    x_y_z`
+`
+,falsey , char[]options1,// packet A { u8 x, }
+charz{ i8 roots@calculatedFrom(
+""CRC32"")  `
+`
+,	string_ `crlf
+line` ,
+// c
+// `tick` ""quote"" 'q'
+i64 u128
+    @lengthOf( crc ) ,
+// @lengthOf(
+// " ++ [27880; 37322]%N ++ runes_of_ascii "
+},	repeatCount
+    `say ""hi""` ,}
+")).
+Eval vm_compute in ("<<<M777>>>" ++ check (runes_of_ascii "options { } packet i8i8 {
+    //x
+    }	root packet crc {
+@calculatedFrom( // 50% %s
+""a\\"" )
+    @calculatedFrom( ""// no comment"" )	@calculatedFrom( ""packet"") repeat As {
+// a // b
+// c
+zchar[ 7] falsey // @lengthOf(
+@lengthOf( // " ++ [128512]%N ++ runes_of_ascii " emoji
+int ) ,
+    repeat zchar[	007 ] i8i8
+`line1
+line2`
+    ,  } , repeat
+Logon { Foo @lengthOf(
+//
+// c
+chars ) ,match matchKey as Pad{ 42:// 50% %s
+i8i8 ,
+} // `tick` ""quote"" 'q'
+, }  , }
+")).
+Eval vm_compute in ("<<<M675>>>" ++ check (runes_of_ascii "packet
+float // a // b
+{ repeat string_
+{
+f64 trueish,  u8
+    /// triple
+    body `// not a comment` //
+,
+// a // b
+// @lengthOf(
+int64
+    //x
+    packetx@lengthOf(  zchar ), }
+, @calculatedFrom( ""`tick`"")
+repeat  zchar[ 007]u8x// trailing space 
+`line1
+line2` ,
+// " ++ [27880; 37322]%N ++ runes_of_ascii "
+// c
+repeat chars`say ""hi""`
+,// trailing space 
+} MetaData
+asx {//	t
+a1
+    chars
 // trailing space 
 // c
-zchar[255 ]A, int64 f32a ,// " ++ [128512]%N ++ runes_of_ascii " emoji
-Pad
-@lengthOf( falsey
-)
+`it's`
+, i64 // " ++ [128512]%N ++ runes_of_ascii " emoji
+int
 ,
-match
-    falsey
-as
-x_y_z {
-7: // `tick` ""quote"" 'q'
-len
-,}
-/// triple
-// c
-, string // " ++ [27880; 37322]%N ++ runes_of_ascii "
-uint8x
-    `a\`,string rootA
-//x
-// a // b
-@lengthOf( int	) ,	}	root
-/// triple
-// `tick` ""quote"" 'q'
-packet pack { crc i64_ , }
-")).
-Eval vm_compute in ("<<<M13>>>" ++ check (runes_of_ascii "
-packet msg_type
-    // packet A { u8 x, }
-    {//	t
-string	packetx @lengthOf( charz )	, @calculatedFrom( """"  )
-repeat char[ 0123456789
-    ]
-    // c
-    int `it's` ,
-    @rightPad (// packet A { u8 x, }
-)
-@tag( 42 )
-    @calculatedFrom( ""`tick`""
-) repeat
-uint16
-falsey  `" ++ [233]%N ++ runes_of_ascii "`
-, i32 Foo , @tag(7 ) u64
-chars@lengthOf(  BodyLength ), i16
-    Z9_@lengthOf(/// triple
-a1 ) ,@lengthOf(leftPad ) lengthOf body ``	, @tag(
-    007 )
-char[
-    10 //x
-]
-_x
-// a // b
-// " ++ [27880; 37322]%N ++ runes_of_ascii "
-@lengthOf(
-    roots )	`
-` , // a // b
-@calculatedFrom(""a\\"" )
-    float64 //	t
-rootA`doc` , string T @calculatedFrom( """" ) , }")).
-Eval vm_compute in ("<<<M2029>>>" ++ check (runes_of_ascii "options {
-}
-
-packet BodyLength {
-    i8i8 @lengthOf(trueish),
-    repeat body,// " ++ [27880; 37322]%N ++ runes_of_ascii "
-    @calculatedFrom(""1"")
-    repeat int64 i64_,
-    @tag(0)
-    MetaDataX msg_type `" ++ [28040; 24687; 31867; 22411]%N ++ runes_of_ascii "`,
-    Pad {
-        Header @calculatedFrom(""""),
-    },
-    @tag(42)
-    u8 asx `u8 x,`,
-    @tag(3)
-    repeat string_ {
-        metadata {
-            // @lengthOf(
-            char[0123456789] crc,
-            Packet `" ++ [28040; 24687; 31867; 22411]%N ++ runes_of_ascii "`,//x
-            options1 `tab	here`,
-        },
-        repeat Packet,
-    },
-}
-
-//x
-options {
-    x = char[10];
 }")).
-Eval vm_compute in ("<<<M1957>>>" ++ check (runes_of_ascii "options {
-    LittleEndian = true;
-    StringPrefixLenType = u16;
-    ArrayPrefixLenType = u64;
+Eval vm_compute in ("<<<M4243>>>" ++ check (runes_of_ascii "// top
+packet MetaDataX {
+    // c2
+}// c3
+
+root packet len {
+    // c7
+    zchar[7] matchKey @lengthOf(BodyLength),// c15
+    BodyLength `// not a comment`,// c18
+    match u8x as i8i8 {
+        // c23
+        ""a\""b"" : stringy,
+        // c27
+        [""`tick`""] : u8x,
+        // c32
+        0123456789 : options1,
+        // c36
+        [""`tick`""] : x_y_z,
+        // c41
+    },// c43
+}// c44")).
+Eval vm_compute in ("<<<M4043>>>" ++ check (runes_of_ascii "  packet A 
+// " ++ [128512]%N ++ runes_of_ascii " emoji
+{
+
+    @rightPad ( ' '
+	)
+
+uint32
+o
+	@calculatedFrom(	"""")
+
+    , }  // a // b
+	packet matchKey 	 // `tick` ""quote"" 'q'
+
+{
+	repeat
+chars,
+	string chars`crlf
+line`
+    //x
+	  // " ++ [128512]%N ++ runes_of_ascii " emoji
+  , 
+string  x_y_z
+    ,
+A// packet A { u8 x, }
+  roots ,	@lengthOf( body 
+)
+
+    repeat
+	zchar[ 10	] 
+x
+	,  }options{
+    pack //
+  =
+	""abc"" }  // @lengthOf(
+")).
+Eval vm_compute in ("<<<M870>>>" ++ check (runes_of_ascii "packet T { i64_ `say ""hi""` , match charz as /// triple
+repeatCount { ""{,}""
+// a // b
+// 50% %s
+:
+len ,//x
+[ // trailing space 
+""" ++ [128512]%N ++ runes_of_ascii """ ]  : matchKey ,4294967296  : Packet
+,
+255	:
+// " ++ [128512]%N ++ runes_of_ascii " emoji
+// " ++ [27880; 37322]%N ++ runes_of_ascii "
+x , 007
+    : body 10
+: body ,
+    /// triple
+    } ,
+    } MetaData Pad { float64 // 50% %s
+metadata, uint64 Z9_ , string o `doc` ,int32 float`a\`
+    // " ++ [27880; 37322]%N ++ runes_of_ascii "
+    , }
+
+")).
+Eval vm_compute in ("<<<M4381>>>" ++ check (runes_of_ascii "MetaData MetaDataX {
+    char[65535] falsey,
+    //	t
+    // @lengthOf(
+    asx lengthOf `say ""hi""`,
+    u8 metadata,
+    string body `
+    `,
 }
 
-packet Fill {
+MetaData tag {
+    char[007] u8x,
+    x_y_z zchar `line1
+    line2`,
+    A As,
 }
+
+MetaData msg_type {
+    uint32 pack `tab	here`,
+}
+
+options {
+    trueish = false
+    i8i8 = 007;
+    int = char[];
+}")).
+Eval vm_compute in ("<<<M590>>>" ++ check (runes_of_ascii "options{Pad
+    =
+    ""packet"" ; }	packet i8i8//x
+{ repeat
+    string Foo , } options
+{float
+    = float32; } // 50% %s
+options
+    // 50% %s
+    {As =  char[] ;
+    //	t
+    roots =//	t
+""it's""
+    } packet leftPad { @tag(
+    42  ) repeat	_x
+`crlf
+line`// packet A { u8 x, }
+, @calculatedFrom( ""x y""
+)repeat char[]//	t
+Pad, }
+")).
+Eval vm_compute in ("<<<M1015>>>" ++ check (runes_of_ascii "//x
+packet Z9_ {
+@lengthOf(
+rootA)@calculatedFrom(// trailing space 
+""\n""
+) int8 Logon`` ,zchar[42  ]
+T
+    // `tick` ""quote"" 'q'
+    @lengthOf( Foo
+    // `tick` ""quote"" 'q'
+    ) //
+,
+}  options {//
+x_y_z =	""`tick`""
+    ;rootA
+=
+""it's"" ; packetx = 1 ;BodyLength// packet A { u8 x, }
+=  255 ; roots
+= ""a\\"" //
+}
+
+")).
+Eval vm_compute in ("<<<M996>>>" ++ check (runes_of_ascii "
+root
+packet _x
+    {
+// `tick` ""quote"" 'q'
+// packet A { u8 x, }
+}
+packet stringy // `tick` ""quote"" 'q'
+{ @tag( 0
+) @tag( 7	) metadata @lengthOf(
+charz	) ,repeat As // a // b
+o // a // b
+`doc` , @leftPad ( ) char[
+//
+// `tick` ""quote"" 'q'
+00 ] trueish`doc`, @tag( 00	)  @tag(1 ) u32	uint8x`" ++ [233]%N ++ runes_of_ascii "`	, }
+
+")).
+Eval vm_compute in ("<<<M3699>>>" ++ check (runes_of_ascii "MetaData stringy {
+    char[3] T,
+    char[255] Logon,
+    zchar[007] packetx,
+    i8 pack ``,// 50% %s
+}// 50% %s
 
 packet Logon {
-    repeat char[3] Tail,
-    zchar[6] venue,
-    repeat string Side2,
-}
-
-root packet Cancel {
-    char[] Flags,
-    char[] OrderId,
-    zchar[6] msgKind,
-    Fill,
-    char[] Acct,
-    u8 f1,
-    match f1 as Body {
-        188 : Fill,
-        5 : Logon,
+    match u as roots {
+        [""// no comment"", ""it's""] : lengthOf,
     },
-    u32 clOrdID @calculatedFrom(""CR\
-    C32""),
-}")).
-Eval vm_compute in ("<<<M1116>>>" ++ check (runes_of_ascii "// top
-options // c0
-{ // c1
-charz // c2
-= // c3
-f64 // c4
-; // c5
-metadata // c6
-= // c7
-7 // c8
-; // c9
-} // c10
-options // c11
-{ // c12
-u128 // c13
-= // c14
-10 // c15
-options1 // c16
-= // c17
-true // c18
-; // c19
-zchar // c20
-= // c21
-uint16 // c22
-; // c23
-lengthOf // c24
-= // c25
-true // c26
-; // c27
-} // c28
-options // c29
-{ // c30
-len // c31
-= // c32
-1 // c33
-} // c34
-")).
-Eval vm_compute in ("<<<M121>>>" ++ check (runes_of_ascii "root
-    packet stringy{ // trailing space 
-@calculatedFrom(
-""" ++ [28040; 24687]%N ++ runes_of_ascii """ ) repeat
-Foo {float64	i64_
-    @lengthOf(Z9_ ),	}
-    ,	repeat // `tick` ""quote"" 'q'
-lengthOf {
-falsey
-    { uint16 len//x
-,	} , Packet uint8x `a\`,} , @calculatedFrom(""" ++ [128512]%N ++ runes_of_ascii """)  string MetaDataX	`" ++ [233]%N ++ runes_of_ascii "`  ,} packet
-chars { @leftPad ( '0'
-    )i64 trueish
-@lengthOf( Z9_  )
-    ,
-}
-")).
-Eval vm_compute in ("<<<M40>>>" ++ check (runes_of_ascii "packet// " ++ [128512]%N ++ runes_of_ascii " emoji
-charz
-    {
-repeat options1 {char x_y_z
-/// triple
-//x
-, T	{ string_ @calculatedFrom(""1"") , } ,
-f64
-    crc ,
-u64 A
-// trailing space 
-/// triple
-@calculatedFrom(""CRC32""	), } ,} MetaData MetaDataX //	t
-{
-}
-root packet
-u128{ string_  {
-    repeat pack {
-As matchKey , } ,} ,
-}
-")).
-Eval vm_compute in ("<<<M662>>>" ++ check (runes_of_ascii "root packet tag { }  packet MetaDataX{char[007	]
-// c
-/// triple
-asx  @calculatedFrom( ""a\""b""
-) `say ""hi""`// " ++ [27880; 37322]%N ++ runes_of_ascii "
-,  @tag(4294967296 )
-    char[1//x
-] packetx @calculatedFrom(@lengthOf""a\""b""
-    ) ,
-// " ++ [128512]%N ++ runes_of_ascii " emoji
-// a // b
-@calculatedFrom(""" ++ [233]%N ++ runes_of_ascii "t" ++ [233]%N ++ runes_of_ascii """  ) repeat pack // " ++ [27880; 37322]%N ++ runes_of_ascii "
-,
-    } // c")).
-Eval vm_compute in ("<<<M1713>>>" ++ check (runes_of_ascii "
-
-  packet
-
-    Sub  { u8
-a	, @calculatedFrom(
-    ""CRC16""
-
-) u16	SubSum
-	,
-
-    }root  packet
-
-    Frame
-    { 
-u16
-	MsgType
-
-    ,
-
-u16
-BodyLen @lengthOf( Body )  ,
-
-    Sub
-	Body 
-,  string note,
-
-    @calculatedFrom(""CRC16"") u16 Checksum,  u8 
-tail	,
-}")).
-Eval vm_compute in ("<<<M525>>>" ++ check (runes_of_ascii "root packet tag { }  packet MetaDataX{char[ ]	007
-// c
-/// triple
-asx  @calculatedFrom( ""a\""b""
-) `say ""hi""`// " ++ [27880; 37322]%N ++ runes_of_ascii "
-,  @tag(4294967296 )
-    char[1//x
-] packetx @calculatedFrom(""a\""b""
-    ) ,
-// " ++ [128512]%N ++ runes_of_ascii " emoji
-// a // b
-@calculatedFrom(""" ++ [233]%N ++ runes_of_ascii "t" ++ [233]%N ++ runes_of_ascii """  ) repeat pack // " ++ [27880; 37322]%N ++ runes_of_ascii "
-,
-    } // c")).
-Eval vm_compute in ("<<<M561>>>" ++ check (runes_of_ascii "root packet tag { }  packet MetaDataX{char[007	]
-// c
-/// triple
-asx  @calculatedFrom( ""a\""b""
-) `say ""hi""`// " ++ [27880; 37322]%N ++ runes_of_ascii "
-(  @tag(4294967296 )
-    char[1//x
-] packetx @calculatedFrom(""a\""b""
-    ) ,
-// " ++ [128512]%N ++ runes_of_ascii " emoji
-// a // b
-@calculatedFrom(""" ++ [233]%N ++ runes_of_ascii "t" ++ [233]%N ++ runes_of_ascii """  ) repeat pack // " ++ [27880; 37322]%N ++ runes_of_ascii "
-,
-    } // c")).
-Eval vm_compute in ("<<<M1581>>>" ++ check (runes_of_ascii "packet
-Sub
-{ u8
-    a , @calculatedFrom( 
-""CRC16"")
-
-    u16
-
-    SubSum
-, 
-} root	packet
-	Frame{ 
-u16
-    MsgType
-,
-    u16
-	BodyLen@lengthOf(  Body
-
-    ),
-    Sub 
-Body
-
-,string
-
-    note 
-,	@calculatedFrom(
-""CRC16"" )
-
-u16 Checksum 
-,	u8 tail
-
-    ,}
-
-")).
-Eval vm_compute in ("<<<M571>>>" ++ check (runes_of_ascii "root packet tag { }  packet MetaDataX{char[007	]
-// c
-/// triple
-asx  @calculatedFrom( ""a\""b""
-) `say ""hi""`// " ++ [27880; 37322]%N ++ runes_of_ascii "
-,  @tag(root )
-    char[1//x
-] packetx @calculatedFrom(""a\""b""
-    ) ,
-// " ++ [128512]%N ++ runes_of_ascii " emoji
-// a // b
-@calculatedFrom(""" ++ [233]%N ++ runes_of_ascii "t" ++ [233]%N ++ runes_of_ascii """  ) repeat pack // " ++ [27880; 37322]%N ++ runes_of_ascii "
-,
-    } // c")).
-Eval vm_compute in ("<<<M1846>>>" ++ check (runes_of_ascii "root packet tag {
+    uint64 u128 @calculatedFrom(""\" ++ [233]%N ++ runes_of_ascii """),
+    string metadata `say ""hi""`,
+}/// triple")).
+Eval vm_compute in ("<<<M3550>>>" ++ check (runes_of_ascii "packet Header {
 }
 
-packet MetaDataX {
-    char[007] asx @calculatedFrom(""a\""b"") `say ""hi""`,
-    @tag(4294967296)
-    zchar[1] packetx @calculatedFrom(""a\""b""),
-    // " ++ [128512]%N ++ runes_of_ascii " emoji
+root packet BodyLength {
+    As {
+        a1 {
+            char[65535] crc `two words`,
+            msg_type,
+        },
+    },
+    repeat Z9_ {
+        T,
+        pack,
+        repeat tag A,
+        int64 f32a `u8 x,`,
+    },
+}
+
+packet packetx {
+}
+/// triple")).
+Eval vm_compute in ("<<<M1602>>>" ++ check (runes_of_ascii "// 50% %s
+packet	a1
+    { zchar[
+// a // b
+// 50% %s
+007]
+T `it's`
+    ,@rightPad
     // a // b
-    @calculatedFrom(""" ++ [233]%N ++ runes_of_ascii "t" ++ [233]%N ++ runes_of_ascii """)
-    repeat pack,
-}// c")).
-Eval vm_compute in ("<<<M203>>>" ++ check (runes_of_ascii "packet u128  { @calculatedFrom(
-""a	b"" ) repeat  uint8x u128
-`line1
-line2`  , }
-    packet string_ { @calculatedFrom(
-// `tick` ""quote"" 'q'
-// packet A { u8 x, }
-""" ++ [128512]%N ++ runes_of_ascii """ )
-uint8 Pad
-    @lengthOf(
-    o )
-`{ , }`, }")).
-Eval vm_compute in ("<<<M326>>>" ++ check (runes_of_ascii "// @lengthOf(
-root packet
-MetaDataX{
-    repeat
-i16
-packetx, @tag( 007 )
-x
-    @lengthOf(
-_x
-)
-,
-@calculatedFrom(  """ ++ [28040; 24687]%N ++ runes_of_ascii """ ) repeat
-Pad ,	@lengthOf(
-falsey) @tag( 00 ) @tag( 3
-    )string i8i8,}")).
-Eval vm_compute in ("<<<M676>>>" ++ check (runes_of_ascii "root packet len // trailing space 
-{
-// " ++ [27880; 37322]%N ++ runes_of_ascii "
-//	t
-char[10
-] metadata	@lengthOf( o ) `crlf
-line`,
-    @rightPad
-( ' '
-) string
-    Header @calculatedFrom( ""a\\""
-    ), @lengthOf }
-")).
-Eval vm_compute in ("<<<M412>>>" ++ check (runes_of_ascii "packet
-    // `tick` ""quote"" 'q'
-    crc
-// packet A { u8 x, }
-//	t
-{
-u32 a1 true
-    // trailing space 
-    roots
-charz //
-`two words`,	}
-    MetaData int {
-} /// triple")).
-Eval vm_compute in ("<<<M686>>>" ++ check (runes_of_ascii "root packet len // trailing space 
-{
-// " ++ [27880; 37322]%N ++ runes_of_ascii "
-//	t
-char[10
-\] metadata	@lengthOf( o ) `crlf
-line`,
-    @rightPad
-( ' '
-) string
-    Header @calculatedFrom( ""a\\""
-    ), }
-")).
-Eval vm_compute in ("<<<M711>>>" ++ check (runes_of_ascii "root packet len // trailing space 
-{
-// " ++ [27880; 37322]%N ++ runes_of_ascii "
-//	t
-char[10
-metadata ]	@lengthOf( o ) `crlf
-line`,
-    @rightPad
-( ' '
-) string
-    Header @calculatedFrom( ""a\\""
-    ), }
-")).
-Eval vm_compute in ("<<<M655>>>" ++ check (runes_of_ascii "root packet tag { }  packet MetaDataX{char[007	]
-// c
-/// triple
-asx  @calculatedFrom( ""a\""b""
-) `say ""hi""`// " ++ [27880; 37322]%N ++ runes_of_ascii "
-,  @tag(4294967296 )
-    char[1//x
-] packetx @calcula")).
-Eval vm_compute in ("<<<M2009>>>" ++ check (runes_of_ascii "root
+    (
+'\x00')
+    o repeatCount , }  packet packet Logon {  }packet	Logon //x
+{ repeat // " ++ [128512]%N ++ runes_of_ascii " emoji
+uint16 u128
+    //
+    `a\`,
+falsey
+@calculatedFrom(""packet"" ) ,
+    } 	 ")).
+Eval vm_compute in ("<<<M1569>>>" ++ check (runes_of_ascii "// 50% %s
+packet	a1
+    { zchar[
+// a // b
+// 50% %s
+007]
+T `it's`
+    ,@rightPad
+    // a // b
+    int8
+'\x00')
+    o repeatCount , }  packet Logon {  }packet	Logon //x
+{ repeat // " ++ [128512]%N ++ runes_of_ascii " emoji
+uint16 u128
+    //
+    `a\`,
+falsey
+@calculatedFrom(""packet"" ) ,
+    } 	 ")).
+Eval vm_compute in ("<<<M3510>>>" ++ check (runes_of_ascii "  options  {metadata =  false 
+    // packet A { u8 x, }
+// 50% %s
 
-packet
-matchKey  {
+options1
 
-zchar[ 3
+=f64 
+a1 =char[]options1
+    = zchar[ 7 
 ]
+    // @lengthOf(
+    // trailing space 
 
-    pack
+  ;} options{
 
-    @calculatedFrom( ""a	b"" 
-)	`doc` ,
+    string_ = 7
+	    // `tick` ""quote"" 'q'
+	; MetaDataX
+= ""a	b""
+int =  false;
 
 }
 
-options  {
+")).
+Eval vm_compute in ("<<<M1598>>>" ++ check (runes_of_ascii "// 50% %s
+packet	a1
+    { zchar[
+// a // b
+// 50% %s
+007]
+T `it's`
+    ,@rightPad
+    // a // b
+    (
+'\x00')
+    o repeatCount , packet  } Logon {  }packet	Logon //x
+{ repeat // " ++ [128512]%N ++ runes_of_ascii " emoji
+uint16 u128
+    //
+    `a\`,
+falsey
+@calculatedFrom(""packet"" ) ,
+    } 	 ")).
+Eval vm_compute in ("<<<M1611>>>" ++ check (runes_of_ascii "// 50% %s
+packet	a1
+    { zchar[
+// a // b
+// 50% %s
+007]
+T `it's`
+    ,@rightPad
+    // a // b
+    (
+'\x00')
+    o repeatCount , }  packet Logon   }packet	Logon //x
+{ repeat // " ++ [128512]%N ++ runes_of_ascii " emoji
+uint16 u128
+    //
+    `a\`,
+falsey
+@calculatedFrom(""packet"" ) ,
+    } 	 ")).
+Eval vm_compute in ("<<<M1343>>>" ++ check (runes_of_ascii "root packet
+tag
+    //
+    {@calculatedFrom( """" ) string
+    i64_ @lengthOf( a1  ) , } MetaData u8x
+    {BodyLength
+    packetx
+`" ++ [28040; 24687; 31867; 22411]%N ++ runes_of_ascii "`,repeatCount//x
+tag, zchar[
+007 ] Foo, }options{ falsey=
+' ' x
+    = ""1""
+    roots //
+= u64 ;
+packetx
+=' ' ;
+// " ++ [27880; 37322]%N ++ runes_of_ascii "
+//	t
+}")).
+Eval vm_compute in ("<<<M3434>>>" ++ check (runes_of_ascii "
+packet 
+P1 {
+	u8
 
-    }MetaData
-    A { int8 
-// c
-  	msg_type
+    a  ,
+    }
+packet P2  {
+P1
+
+    ,  } 
+packet P3
+{P2
+
+    , P1  ,
+}packet  P4 {
+	repeat
+
+    P3	,
+	P2
+	,}root  packet P5 {P4,P3
+	,P1 , u8 
+K 
 ,
+match	K
+    as
+    Body {4 :P4 ,
+3 :
+P3
+    , 2
+	: P2,
+1	:	P1 
+, 
+} ,
+    }")).
+Eval vm_compute in ("<<<M1295>>>" ++ check (runes_of_ascii "
+MetaData
+a1{ } packet// `tick` ""quote"" 'q'
+leftPad{ @leftPad ( )
+repeat
+pack
+    ,  } root // trailing space 
+packet//
+stringy { @lengthOf(zchar ) string trueish
+@lengthOf(
+T ) , }  MetaData falsey { // `tick` ""quote"" 'q'
+packetx lengthOf,
 }
 ")).
-Eval vm_compute in ("<<<M1629>>>" ++ check (runes_of_ascii "
-packet A
-    {
+Eval vm_compute in ("<<<M4284>>>" ++ check (runes_of_ascii "// top
+packet B {
+    u8 a,
+    // c5
+}
 
-match k	as
-	n
-    {[
-    ""a"" ,
-    ""bb""
+root packet P {
+    // c10
+    u8 K,
+    u64 L @lengthOf(Body),// c19a
+    // c19b
+    match K as Body {
+        // c24
+        1 : B,
+        // c28a
+        // c28b
+    },
+    // c30
+}
+// c31")).
+Eval vm_compute in ("<<<M795>>>" ++ check (runes_of_ascii "options {float=7 ; } root
+packet packetx { repeat
+    Foo
+// " ++ [128512]%N ++ runes_of_ascii " emoji
+// packet A { u8 x, }
+,repeat
+// a // b
+// packet A { u8 x, }
+uint32 //	t
+As ,	@rightPad	(
+    '0' ) string_ As`// not a comment`
+    , zchar[
+7] Z9_ , }")).
+Eval vm_compute in ("<<<M683>>>" ++ check (runes_of_ascii "MetaData x_y_z { int64 Packet
+    , char[] charz
+`" ++ [233]%N ++ runes_of_ascii "`
+    ,string x
+, u64
+    // a // b
+    T , i64 T `{ , }`
+//
+// `tick` ""quote"" 'q'
+,
+}packet int {
+@lengthOf( u8x )
+i8 string_`say ""hi""`
+,
+    } // trailing space ")).
+Eval vm_compute in ("<<<M4143>>>" ++ check (runes_of_ascii "  //
+	options
+{ MetaDataX = 
+      /// triple
+
+""" ++ [28040; 24687]%N ++ runes_of_ascii """
+;
+
+    chars=
+    // 50% %s
+//
+		f64 options1	=	42  } root packet
+	roots{	u8
+
+metadata
+`tab	here` ,
+BodyLength
+
+    @lengthOf( 
+body ) 	 //
+
 	,
-007, ""d""	, 
-""e""
-,  66	,
-
-    ""g""
-
-,  ""h"" ,  9 ,
-
-    ""j""  ]
-:
-
-B 2
-:
-C
-}
-	, }
-")).
-Eval vm_compute in ("<<<M81>>>" ++ check (runes_of_ascii "
-root packet // `tick` ""quote"" 'q'
-rootA { @rightPad (
-) @leftPad(	) @lengthOf(  MetaDataX  )float// c
-u128`a\` , // `tick` ""quote"" 'q'
 }
 ")).
-Eval vm_compute in ("<<<M2045>>>" ++ check (runes_of_ascii "packet A {
+Eval vm_compute in ("<<<M1650>>>" ++ check (runes_of_ascii "// 50% %s
+packet	a1
+    { zchar[
+// a // b
+// 50% %s
+007]
+T `it's`
+    ,@rightPad
+    // a // b
+    (
+'\x00')
+    o repeatCount , }  packet Logon {  }packet	Logon //x
+{ repeat // " ++ [128512]%N ++ runes_of_ascii " emoji
+uint16")).
+Eval vm_compute in ("<<<M3435>>>" ++ check (runes_of_ascii "root packet Frame {
+    u8 K,
+    Logon first,
+    match K as Body {
+        1 : Logon,
+        2 : Logout,
+    },
+}
+packet Logon {
+    string user,
+}
+packet Logout {
+    u16 reason,
+}
+")).
+Eval vm_compute in ("<<<M3903>>>" ++ check (runes_of_ascii "packet u {
+    i16 options1 `u8 x,`,
+}
+
+MetaData pack {
+    // a // b
+    string int,
+    int8 calculatedFrom,
+    x_y_z zchar,
+    string uint8x ``,
+    lengthOf a1 `" ++ [28040; 24687; 31867; 22411]%N ++ runes_of_ascii "`,
+}")).
+Eval vm_compute in ("<<<M650>>>" ++ check (runes_of_ascii "root /// triple
+packet calculatedFrom { string	crc	,  @calculatedFrom( ""abc"" ) u8
+float, match // " ++ [27880; 37322]%N ++ runes_of_ascii "
+BodyLength
+    // 50% %s
+    as Packet{ 0 : charz
+    ,
+    } ,
+}")).
+Eval vm_compute in ("<<<M4295>>>" ++ check (runes_of_ascii "  options
+{ } 
+options{
+o
+= 
+	//x
+	//	t
+    	false packetx
+    = 
+        // @lengthOf(
+  """ ++ [233]%N ++ runes_of_ascii "t" ++ [233]%N ++ runes_of_ascii """  asx	=
+
+0123456789
+
+Foo =
+
+int8  a1=
+
+    uint8;
+    } 	 //	t
+")).
+Eval vm_compute in ("<<<M4187>>>" ++ check (runes_of_ascii "MetaData Header {
+}
+
+root packet options1 {
+    crc metadata `" ++ [233]%N ++ runes_of_ascii "`,
+}
+
+packet A {
+}
+
+root packet leftPad {
+}
+
+MetaData Header {
+    MetaDataX i8i8 `u8 x,`,
+}")).
+Eval vm_compute in ("<<<M2141>>>" ++ check (runes_of_ascii "MetaData BodyLength
+{ int8 Foo
+, string
+    MetaDataX , float zchar ,pack options1
+,asx string_, }
+packet packet u8x {Foo@lengthOf(charz )
+`" ++ [28040; 24687; 31867; 22411]%N ++ runes_of_ascii "`,  }
+")).
+Eval vm_compute in ("<<<M383>>>" ++ check (runes_of_ascii "// a // b
+packet
+    // @lengthOf(
+    matchKey{
+repeat
+    Z9_{ a1 //
+@calculatedFrom(""" ++ [28040; 24687]%N ++ runes_of_ascii """
+/// triple
+/// triple
+)	, } ,} root packet T { //
+}")).
+Eval vm_compute in ("<<<M2019>>>" ++ check (runes_of_ascii "
+packet leftPad {
+@leftPad( '0')
+u32
+i64_ `100% of %d` ,repeat// 50% %s
+i8 chars
+    ,
+} MetaData
+    f32a
+@lengthOf( // packet A { u8 x, }
+}")).
+Eval vm_compute in ("<<<M2077>>>" ++ check (runes_of_ascii "MetaData BodyLength
+{ int8 Foo
+, MetaDataX
+    string , float zchar ,pack options1
+,asx string_, }
+packet u8x {Foo@lengthOf(charz )
+`" ++ [28040; 24687; 31867; 22411]%N ++ runes_of_ascii "`,  }
+")).
+Eval vm_compute in ("<<<M2055>>>" ++ check (runes_of_ascii "MetaData BodyLength
+ int8 Foo
+, string
+    MetaDataX , float zchar ,pack options1
+,asx string_, }
+packet u8x {Foo@lengthOf(charz )
+`" ++ [28040; 24687; 31867; 22411]%N ++ runes_of_ascii "`,  }
+")).
+Eval vm_compute in ("<<<M3855>>>" ++ check (runes_of_ascii "packet A {
     match k as n {
         [
-            1, ""bb"", 007, ""d"", 5,
-            ""f"", 7
+            ""a"", ""bb"", 007, ""d"", ""e"",
+            66, ""g"", ""h""
         ] : B,
         2 : C,
     },
 }")).
-Eval vm_compute in ("<<<M1668>>>" ++ check (runes_of_ascii "packet A {
-    u16 len @lengthOf(body) `x
-        `,
-    u32 crc @calculatedFrom(""CRC32"") `x
-        `,
-    string body,
-}")).
-Eval vm_compute in ("<<<M1252>>>" ++ check (runes_of_ascii "root packet matchKey { zchar[ 3 ] pack @calculatedFrom( ""a	b"" ) `doc` , } options
-// c
-{ } MetaData A { int8 msg_type , }")).
-Eval vm_compute in ("<<<M1947>>>" ++ check (runes_of_ascii "packet metadata {
-    Logon {
-        A `" ++ [28040; 24687; 31867; 22411]%N ++ runes_of_ascii "`,
-        tag o,
-        // c
-    },
-    zchar len `// not a comment`,
-}")).
-Eval vm_compute in ("<<<M1964>>>" ++ check (runes_of_ascii "
-packet chars{
-
-} packet 
-MetaDataX
-    {  @tag( 42 // c
-    )
-	i16
-    string_ ,
-    repeat x`say ""hi""`
+Eval vm_compute in ("<<<M2060>>>" ++ check (runes_of_ascii "MetaData BodyLength
+{  Foo
+, string
+    MetaDataX , float zchar ,pack options1
+,asx string_, }
+packet u8x {Foo@lengthOf(charz )
+`" ++ [28040; 24687; 31867; 22411]%N ++ runes_of_ascii "`,  }
+")).
+Eval vm_compute in ("<<<M2281>>>" ++ check (runes_of_ascii "options
+    {
+x_y_z// " ++ [27880; 37322]%N ++ runes_of_ascii "
+= 10 ; }
+packet body {
+    @calculatedFrom(
+// trailing space 
+// " ++ [27880; 37322]%N ++ runes_of_ascii "
+""1""
+)	match true as Foo
+    {
+255 :T , }
+,}")).
+Eval vm_compute in ("<<<M2304>>>" ++ check (runes_of_ascii "options
+    {
+x_y_z// " ++ [27880; 37322]%N ++ runes_of_ascii "
+= 10 ; }
+packet body {
+    @calculatedFrom(
+// trailing space 
+// " ++ [27880; 37322]%N ++ runes_of_ascii "
+""1""
+)	match T as Foo
+    {
+255 : :T , }
+,}")).
+Eval vm_compute in ("<<<M2348>>>" ++ check (runes_of_ascii "options
+    {
+x_y_z// " ++ [27880; 37322]%N ++ runes_of_ascii "
+= 10 ; }
+packet body {
+    @calculatedFrom(
+// trailing space 
+// " ++ [27880; 37322]%N ++ runes_of_ascii "
+""1""
+)	matc#h T as Foo
+    {
+255 :T , }
+,}")).
+Eval vm_compute in ("<<<M2212>>>" ++ check (runes_of_ascii "{
+    options
+x_y_z// " ++ [27880; 37322]%N ++ runes_of_ascii "
+= 10 ; }
+packet body {
+    @calculatedFrom(
+// trailing space 
+// " ++ [27880; 37322]%N ++ runes_of_ascii "
+""1""
+)	match T as Foo
+    {
+255 :T , }
+,}")).
+Eval vm_compute in ("<<<M862>>>" ++ check (runes_of_ascii "  packet matchKey {	string leftPad,	options1 A
+    ,@calculatedFrom( """" //	t
+)
+    float { crc `{ , }`,
+    len uint8x
 ,
-	}
-")).
-Eval vm_compute in ("<<<M2079>>>" ++ check (runes_of_ascii "options	{
-LittleEndian= true
-;}
-root 
-packet
-P
-{ u16
-
-    a ,
-u32
-
-Sum @calculatedFrom(
-""CR\
-C32"" ) , }")).
-Eval vm_compute in ("<<<M1628>>>" ++ check (runes_of_ascii "MetaData float {
-    float64 charz `
-        `,
-}// c
-
-root packet chars {
-    @rightPad('0')
-    Foo,
-}")).
-Eval vm_compute in ("<<<M891>>>" ++ check (runes_of_ascii "packet A {
-  match k as n {
-    [1, ""bb"", 007, ""d"", 5, ""f"", 7, ""h"", 9, ""j"", 11] : B
-    2 : C
-  },
-}")).
-Eval vm_compute in ("<<<M871>>>" ++ check (runes_of_ascii "packet A {
-  match k as n {
-    [""a"", ""bb"", 007, ""d"", ""e"", 66, ""g"", ""h"", 9] : B
-    2 : C
-  },
-}")).
-Eval vm_compute in ("<<<M1923>>>" ++ check (runes_of_ascii "MetaData body {
-    i64 pack `it's`,
 }
-
-packet stringy {
-    int16 calculatedFrom,
-    // c
-}")).
-Eval vm_compute in ("<<<M1178>>>" ++ check (runes_of_ascii "// c
-MetaData float { float64 charz `
-` , } root packet chars { @rightPad ( '0' ) Foo , }")).
-Eval vm_compute in ("<<<M1211>>>" ++ check (runes_of_ascii "MetaData float { float64 charz `
-` , } root packet chars { @rightPad ( '0' )
-// c
-Foo , }")).
-Eval vm_compute in ("<<<M1422>>>" ++ check (runes_of_ascii "packet chars { } packet MetaDataX { @tag( 42 ) i16 string_ , repeat // c
-x `say ""hi""` , }")).
-Eval vm_compute in ("<<<M547>>>" ++ check (runes_of_ascii "root packet tag { }  packet MetaDataX{char[007	]
-// c
-/// triple
-asx  @calculatedFrom(")).
-Eval vm_compute in ("<<<M1152>>>" ++ check (runes_of_ascii "packet metadata { Logon { A `" ++ [28040; 24687; 31867; 22411]%N ++ runes_of_ascii "` , tag o , } , zchar len // c
-`// not a comment` , }")).
-Eval vm_compute in ("<<<M1357>>>" ++ check (runes_of_ascii "packet o { repeat Logon uint8x , } options
-// c
-{ asx = zchar[ 3 ] stringy = '\x00' }")).
-Eval vm_compute in ("<<<M1798>>>" ++ check (runes_of_ascii "packet order_item {
-    u8 a,
-}
-
-root packet new_order {
-    order_item,
-    u8 x,
-}")).
-Eval vm_compute in ("<<<M1318>>>" ++ check (runes_of_ascii "MetaData body { i64 pack `it's` ,
-// c
-} packet stringy { int16 calculatedFrom , }")).
-Eval vm_compute in ("<<<M818>>>" ++ check (runes_of_ascii "packet A {
-  match k as n {
-    [""a"", ""bb"", 007, ""d"", ""e""] : B,
-    2 : C
-  },
-}")).
-Eval vm_compute in ("<<<M813>>>" ++ check (runes_of_ascii "packet A {
-  match k as n {
-    [1, ""bb"", 007, ""d"", 5] : B
-    2 : C
-  },
-}")).
-Eval vm_compute in ("<<<M1902>>>" ++ check (runes_of_ascii "
-options
-
-    {
-
-x_y_z = 
-true ; a1
-= true
-
-;  options1
-
-=  true ; }
-")).
-Eval vm_compute in ("<<<M846>>>" ++ check (runes_of_ascii "packet A { Inner { match k as n { [1,22,007,4,5,66,7] : B, }, }, }")).
-Eval vm_compute in ("<<<M1869>>>" ++ check (runes_of_ascii "MetaData chars {
-    f32 metadata,
-    i64 metadata `
-    `,
-}")).
-Eval vm_compute in ("<<<M1278>>>" ++ check (runes_of_ascii "packet x // c
-{ @rightPad ( ) repeat roots Logon `doc` , }")).
-Eval vm_compute in ("<<<M1783>>>" ++ check (runes_of_ascii "MetaData	u128
-    {
-
-uint8x	msg_type
-`line1
-line2`
-,}
-")).
-Eval vm_compute in ("<<<M751>>>" ++ check (runes_of_ascii "i16 u32 string } : } f64 @tag( root ) `` @tag( (")).
-Eval vm_compute in ("<<<M168>>>" ++ check (runes_of_ascii "root packet leftPad
-    { f32a	tag ,
+,
     }
 ")).
-Eval vm_compute in ("<<<M1106>>>" ++ check (runes_of_ascii "root packet u128 { // c
-chars `it's` , }")).
-Eval vm_compute in ("<<<M687>>>" ++ check (runes_of_ascii "root packet len // trailing space 
-{")).
-Eval vm_compute in ("<<<M1603>>>" ++ check (runes_of_ascii "packet A {
-    u8 x `d `,// c 
+Eval vm_compute in ("<<<M3062>>>" ++ check (runes_of_ascii "packet A {
+    u16 len @lengthOf(body) `100% of %s %d %v`,
+    u32 crc @calculatedFrom(""CRC32"") `100% of %s %d %v`,
+    string body,
 }")).
-Eval vm_compute in ("<<<M1961>>>" ++ check (runes_of_ascii "// " ++ [27880; 37322]%N ++ runes_of_ascii "
-packet matchKey {
+Eval vm_compute in ("<<<M3408>>>" ++ check (runes_of_ascii "packet A {
+    u8 a,
 }
-// c")).
-Eval vm_compute in ("<<<M11>>>" ++ check (runes_of_ascii "options { falsey
-= false}")).
-Eval vm_compute in ("<<<M752>>>" ++ check (runes_of_ascii "1-I" ++ [65533; 65533]%N ++ runes_of_ascii "Z" ++ [65533; 65533; 65533; 65533; 65533; 65533; 14; 65533; 65533; 65533]%N ++ runes_of_ascii "/" ++ [1765; 65533; 65533]%N)).
-Eval vm_compute in ("<<<M991>>>" ++ check (runes_of_ascii "packet A {
+packet B {
+    u16 b,
 }
-// c" ++ [5760]%N)).
-Eval vm_compute in ("<<<M969>>>" ++ check (runes_of_ascii "packet A {
-}// c ")).
-Eval vm_compute in ("<<<M183>>>" ++ check (runes_of_ascii "packet T
-{}
+root packet P {
+    u8 K,
+    match K as M {
+        1 : A,
+        1 : B,
+    },
+}
 ")).
-Eval vm_compute in ("<<<M975>>>" ++ check (runes_of_ascii "// c" ++ [12288]%N)).
-Eval vm_compute in ("<<<M727>>>" ++ check (runes_of_ascii "/")).
+Eval vm_compute in ("<<<M3840>>>" ++ check (runes_of_ascii "packet
+
+A { match
+
+k as 
+n{	[
+	1
+
+    , 22,
+	007 ,
+	4, 5 ,	66 ,7
+    ,
+8
+,
+
+    9 ,10,
+    11 ,
+
+    12
+	]	:B 2: 
+C }	,}
+
+")).
+Eval vm_compute in ("<<<M4022>>>" ++ check (runes_of_ascii "
+
+  packet
+
+    A
+	{
+Inner
+	{
+
+u8
+    x
+`tab
+	x`
+	,
+
+    Deep 
+{
+    u8
+y
+
+    `tab
+	x`,
+
+    }
+	,
+
+    }
+	,
+    } ")).
+Eval vm_compute in ("<<<M4271>>>" ++ check (runes_of_ascii "packet A {
+    match k as n {
+        [
+            1, 22, 007, 4, 5,
+            66
+        ] : B,
+        2 : C,
+    },
+}")).
+Eval vm_compute in ("<<<M250>>>" ++ check (runes_of_ascii "//	t
+packet repeatCount {
+    @tag( 10 //
+) int32 BodyLength @lengthOf( x_y_z ) , a1 calculatedFrom //x
+,/// triple
+}
+")).
+Eval vm_compute in ("<<<M1870>>>" ++ check (runes_of_ascii "packet o {
+    roots `it's`
+// trailing space 
+//x
+, char[ 42
+    i32  A, // " ++ [27880; 37322]%N ++ runes_of_ascii "
+f64
+repeatCount
+    `crlf
+line`
+,}")).
+Eval vm_compute in ("<<<M3979>>>" ++ check (runes_of_ascii "MetaData Z9_ {
+}
+
+options {
+    repeatCount = '0'
+    crc = 007;
+    rootA = int8;
+    _x = 0;
+}
+
+packet falsey {
+}")).
+Eval vm_compute in ("<<<M1837>>>" ++ check (runes_of_ascii "packet o 
+    roots `it's`
+// trailing space 
+//x
+, char[ 42
+    ]  A, // " ++ [27880; 37322]%N ++ runes_of_ascii "
+f64
+repeatCount
+    `crlf
+line`
+,}")).
+Eval vm_compute in ("<<<M1092>>>" ++ check (runes_of_ascii "//
+options
+    {	} options{ // 50% %s
+stringy = 0123456789 string_= ""\n""  int =
+false
+;
+/// triple
+// a // b
+}
+")).
+Eval vm_compute in ("<<<M3599>>>" ++ check (runes_of_ascii "
+MetaData  Foo
+
+{
+    zchar[
+	0 ]	matchKey , 
+}	options 
+{ 	 // c
+  lengthOf
+    =	i32
+
+u=
+	00
+
+    ;
+}
+")).
+Eval vm_compute in ("<<<M4302>>>" ++ check (runes_of_ascii "
+packet	chars {
+	@tag(
+
+    //	t
+	007
+
+    )
+@rightPad ( ) int64 
+Header
+    `// not a comment`
+	,}
+")).
+Eval vm_compute in ("<<<M4117>>>" ++ check (runes_of_ascii "packet
+    A
+
+{ Inner
+
+    {  u8
+
+x  `a
+    b
+  c`
+,Deep {
+u8 y`a
+    b
+  c`
+
+, }
+
+    ,
+} 
+,
+
+} ")).
+Eval vm_compute in ("<<<M4322>>>" ++ check (runes_of_ascii "MetaData MetaDataX {
+    uint8 stringy `a\`,
+    float32 f32a,
+    u32 T,
+    float32 uint8x,
+}// " ++ [27880; 37322]%N)).
+Eval vm_compute in ("<<<M3666>>>" ++ check (runes_of_ascii "root packet
+f32a 
+{ @tag(
+    1 ) @lengthOf(
+    trueish
+
+) 
+@tag(4294967296  )u8x	`{ , }` ,
+	}
+")).
+Eval vm_compute in ("<<<M4262>>>" ++ check (runes_of_ascii "packet
+	A {
+
+match
+
+k
+
+as
+    n {
+[
+    ""a"",
+	22,
+
+    ""c c""
+
+    ,4	]
+:	B
+	, 2 : 
+C }, }
+")).
+Eval vm_compute in ("<<<M3419>>>" ++ check (runes_of_ascii "
+
+  packet orderItem
+{ 
+u8 a
+
+,
+    }
+root packet
+newOrder 
+{
+
+    orderItem , u8 x	,
+}")).
+Eval vm_compute in ("<<<M3760>>>" ++ check (runes_of_ascii "
+root packet 
+SimpleMessage{ uint16
+    MsgType	`" ++ [28040; 24687; 31867; 22411]%N ++ runes_of_ascii "` 
+, string JsonBody	`Json" ++ [23383; 31526; 20018; 28040; 24687; 20307]%N ++ runes_of_ascii "` ,
+}
+")).
+Eval vm_compute in ("<<<M1429>>>" ++ check (runes_of_ascii "packet
+T
+{ repeatCount match as	calculatedFrom
+{ [65535 ]	: As	,
+} ,}
+// trailing space 
+")).
+Eval vm_compute in ("<<<M1422>>>" ++ check (runes_of_ascii "packet
+T
+ match repeatCount as	calculatedFrom
+{ [65535 ]	: As	,
+} ,}
+// trailing space 
+")).
+Eval vm_compute in ("<<<M3951>>>" ++ check (runes_of_ascii "MetaData trueish {
+    int f32a,
+}
+
+root packet zchar {
+    trueish `line1
+    line2`,
+}")).
+Eval vm_compute in ("<<<M1776>>>" ++ check (runes_of_ascii "options{  lengthOf =//x
+i16;
+    BodyLength = 0 ; pack
+= false; ;
+    A = char[ 3 ] }")).
+Eval vm_compute in ("<<<M2955>>>" ++ check (runes_of_ascii "packet A {
+  match k as n {
+    [1, 22, ""c c"", 4, 5, ""f"", 7, 8] : B,
+    2 : C
+  },
+}")).
+Eval vm_compute in ("<<<M2931>>>" ++ check (runes_of_ascii "packet A {
+  match k as n {
+    [""a"", ""bb"", 007, ""d"", ""e"", 66] : B,
+    2 : C
+  },
+}")).
+Eval vm_compute in ("<<<M4272>>>" ++ check (runes_of_ascii "root
+packet//
+	repeatCount // trailing space 
+  {
+	_x
+	@calculatedFrom(""1""
+)
+, }
+
+")).
+Eval vm_compute in ("<<<M1760>>>" ++ check (runes_of_ascii "options{  lengthOf =//x
+i16;
+    BodyLength = 0 ; 
+= false;
+    A = char[ 3 ] }")).
+Eval vm_compute in ("<<<M3247>>>" ++ check (runes_of_ascii "MetaData Foo // c
+{ zchar[ 0 ] matchKey , } options { lengthOf = i32 u = 00 ; }")).
+Eval vm_compute in ("<<<M3279>>>" ++ check (runes_of_ascii "MetaData Foo { zchar[ 0 ] matchKey , } options { lengthOf = i32 u = 00 ; // c
+}")).
+Eval vm_compute in ("<<<M2720>>>" ++ check (runes_of_ascii "char[ char char[ packet true false : MetaData = @lengthOf( true options int8")).
+Eval vm_compute in ("<<<M1164>>>" ++ check (runes_of_ascii "  MetaData len {
+    u32
+    Pad`two words`// packet A { u8 x, }
+, } // c")).
+Eval vm_compute in ("<<<M1134>>>" ++ check (runes_of_ascii "MetaData i8i8 // a // b
+{
+char x_y_z
+    ``, i16 body
+`two words`,}
+")).
+Eval vm_compute in ("<<<M2895>>>" ++ check (runes_of_ascii "packet A {
+  match k as n {
+    [1, 22, 007, 4] : B,
+    2 : C
+  },
+}")).
+Eval vm_compute in ("<<<M3715>>>" ++ check (runes_of_ascii "packet u8x {
+    // c
+}
+
+MetaData crc {
+    char[4294967296] Foo,
+}")).
+Eval vm_compute in ("<<<M532>>>" ++ check (runes_of_ascii "root packet // packet A { u8 x, }
+zchar { f32a matchKey
+,
+    }
+")).
+Eval vm_compute in ("<<<M3316>>>" ++ check (runes_of_ascii "packet u8x { } MetaData crc { char[ 4294967296 ] Foo , }
+// c
+")).
+Eval vm_compute in ("<<<M3303>>>" ++ check (runes_of_ascii "packet u8x { } MetaData crc { // c
+char[ 4294967296 ] Foo , }")).
+Eval vm_compute in ("<<<M1029>>>" ++ check (runes_of_ascii "options{ As
+=// `tick` ""quote"" 'q'
+false leftPad = true }
+")).
+Eval vm_compute in ("<<<M4085>>>" ++ check (runes_of_ascii "
+packet  MetaDataX  {
+    }
+root
+	packet Packet
+	{} 	 //
+")).
+Eval vm_compute in ("<<<M105>>>" ++ check (runes_of_ascii "//	t
+root packet As
+// c
+// " ++ [128512]%N ++ runes_of_ascii " emoji
+{
+} options
+{ }
+")).
+Eval vm_compute in ("<<<M64>>>" ++ check (runes_of_ascii "
+packet calculatedFrom {
+repeat string	trueish,}
+
+")).
+Eval vm_compute in ("<<<M3901>>>" ++ check (runes_of_ascii "options { 
+BodyLength // " ++ [27880; 37322]%N ++ runes_of_ascii "
+	=
+
+4294967296
+    } ")).
+Eval vm_compute in ("<<<M3898>>>" ++ check (runes_of_ascii "packet  packetx
+{}packet zchar  //	t
+		{ }
+
+")).
+Eval vm_compute in ("<<<M3081>>>" ++ check (runes_of_ascii "options {
+    a = ""x\
+y"";
+    b = ""x\
+y""
+}")).
+Eval vm_compute in ("<<<M3087>>>" ++ check (runes_of_ascii "options {
+    a = ""%d%s"";
+    b = ""%d%s""
+}")).
+Eval vm_compute in ("<<<M2619>>>" ++ check (runes_of_ascii "packet A { match k as n { [[1]] : B }, }")).
+Eval vm_compute in ("<<<M3233>>>" ++ check (runes_of_ascii "root packet u128 { chars `doc` , // c
+}")).
+Eval vm_compute in ("<<<M2386>>>" ++ check (runes_of_ascii "MetaData
+Foo {@ Header //
+pack ,	} 	 ")).
+Eval vm_compute in ("<<<M2623>>>" ++ check (runes_of_ascii "packet A { match k as n { x : B }, }")).
+Eval vm_compute in ("<<<M2769>>>" ++ check ([127]%N ++ runes_of_ascii "7" ++ [65533; 65533; 65533; 65533; 26; 12; 65533; 65533]%N ++ runes_of_ascii "f" ++ [65533]%N ++ runes_of_ascii "e(" ++ [65533; 65533; 65533; 65533; 65533; 65533; 65533]%N ++ runes_of_ascii "j" ++ [65533; 65533; 65533]%N ++ runes_of_ascii "[" ++ [65533; 65533]%N ++ runes_of_ascii "D" ++ [65533; 44370; 65533]%N ++ runes_of_ascii "}" ++ [65533; 65533]%N)).
+Eval vm_compute in ("<<<M1965>>>" ++ check (runes_of_ascii "
+packet leftPad {
+@leftPad( '0')")).
+Eval vm_compute in ("<<<M3053>>>" ++ check (runes_of_ascii "root packet A {
+    u8 x `
+x`,
+}")).
+Eval vm_compute in ("<<<M5>>>" ++ check (runes_of_ascii "options {
+string_ = char[] }
+")).
+Eval vm_compute in ("<<<M1441>>>" ++ check (runes_of_ascii "packet
+T
+{ match repeatCount")).
+Eval vm_compute in ("<<<M3341>>>" ++ check (runes_of_ascii "options
+// c
+{ u8x = false }")).
+Eval vm_compute in ("<<<M3974>>>" ++ check (runes_of_ascii "
+options
+{
+
+a =
+
+    1
+}")).
+Eval vm_compute in ("<<<M2605>>>" ++ check (runes_of_ascii "packet A { B { u8 x, }, }")).
+Eval vm_compute in ("<<<M1236>>>" ++ check (runes_of_ascii "
+// packet A { u8 x, }
+")).
+Eval vm_compute in ("<<<M279>>>" ++ check (runes_of_ascii "MetaData u128 {} //	t")).
+Eval vm_compute in ("<<<M2627>>>" ++ check (runes_of_ascii "packet A { @tag(1) }")).
+Eval vm_compute in ("<<<M3158>>>" ++ check (runes_of_ascii "// c 	
+packet A {
+}")).
+Eval vm_compute in ("<<<M3123>>>" ++ check (runes_of_ascii "// c" ++ [8202]%N ++ runes_of_ascii "
+packet A {
+}")).
+Eval vm_compute in ("<<<M2575>>>" ++ check (runes_of_ascii "packet A { u8 , }")).
+Eval vm_compute in ("<<<M88>>>" ++ check (runes_of_ascii "packet	i64_ { }
+")).
+Eval vm_compute in ("<<<M3835>>>" ++ check (runes_of_ascii "// @lengthOf(
+")).
+Eval vm_compute in ("<<<M873>>>" ++ check (runes_of_ascii "
+options { }")).
+Eval vm_compute in ("<<<M2644>>>" ++ check (runes_of_ascii "packet A }")).
+Eval vm_compute in ("<<<M2645>>>" ++ check (runes_of_ascii "packet A")).
+Eval vm_compute in ("<<<M2476>>>" ++ check (runes_of_ascii "Packet")).
+Eval vm_compute in ("<<<M2529>>>" ++ check (runes_of_ascii "`a
+b`")).
+Eval vm_compute in ("<<<M2486>>>" ++ check (runes_of_ascii "'  '")).
+Eval vm_compute in ("<<<M2507>>>" ++ check (runes_of_ascii "///")).
+Eval vm_compute in ("<<<M2505>>>" ++ check (runes_of_ascii "//")).
+Eval vm_compute in ("<<<M2695>>>" ++ check ([65279]%N)).
